@@ -711,3 +711,1225 @@ Proof.
   - rewrite keys_zset_present; assumption.
   - rewrite keys_zset_absent by assumption. apply NoDup_snoc; assumption.
 Qed.
+
+(* ---------- nbonds[n][m] = ... : sequences of `link` ---------- *)
+Definition adjT := list (Z * list (Z * bond)).
+Definition get2 (adj : adjT) (x y : Z) : option bond := zget (match zget adj x with Some l => l | None => [] end) y.
+
+Lemma bond_of_get2 atoms adj x y : bond_of (mkMol atoms adj) x y = get2 adj x y.
+Proof. reflexivity. Qed.
+
+Lemma get2_key adj x y b : get2 adj x y = Some b -> In x (keys adj).
+Proof.
+  unfold get2. destruct (zget adj x) eqn:E; [intros _; eapply zget_Some_key; exact E|cbn; discriminate].
+Qed.
+
+Lemma link_ok adj n m fresh adj' : link adj n m fresh = Ok adj' ->
+  In n (keys adj) /\ In m (keys adj) /\ keys adj' = keys adj /\
+  forall x y, get2 adj' x y =
+              if (x =? n) && (y =? m) then Some (match get2 adj m n with Some b => b | None => fresh end) else get2 adj x y.
+Proof.
+  unfold link. destruct (zget adj m) as [lm|] eqn:Em; [|discriminate].
+  destruct (zget adj n) as [ln|] eqn:En; [|discriminate].
+  intros H. inversion H; subst adj'. clear H.
+  split; [eapply zget_Some_key; exact En|]. split; [eapply zget_Some_key; exact Em|].
+  split; [apply keys_zset_present; eapply zget_Some_key; exact En|].
+  intros x y. unfold get2 at 1. rewrite zget_zset.
+  destruct (Z.eqb_spec x n) as [->|Hx]; cbn [andb].
+  - rewrite zget_zset. unfold get2. rewrite Em, En. destruct (y =? m); reflexivity.
+  - reflexivity.
+Qed.
+
+Definition req := (Z * Z * bond)%type.
+Definition link_req (adj : adjT) (w : req) : pyres adjT := link adj (fst (fst w)) (snd (fst w)) (snd w).
+Definition targets (W : list req) (x y : Z) : bool := existsb (fun w => (x =? fst (fst w)) && (y =? snd (fst w))) W.
+
+Lemma targets_In W x y : targets W x y = true <-> exists b, In (x, y, b) W.
+Proof.
+  unfold targets. rewrite existsb_exists. split.
+  - intros ([[n m] b] & Hin & H). cbn in H. apply andb_prop in H. destruct H as [H1 H2].
+    apply Z.eqb_eq in H1. apply Z.eqb_eq in H2. subst. exists b. exact Hin.
+  - intros [b Hin]. exists (x, y, b). split; [exact Hin|]. cbn. rewrite !Z.eqb_refl. reflexivity.
+Qed.
+
+Lemma links_keys : forall W adj adj', fold_res link_req W adj = Ok adj' ->
+  keys adj' = keys adj /\
+  (forall n m b, In (n, m, b) W -> In n (keys adj) /\ In m (keys adj)) /\
+  (forall x y, targets W x y = false -> get2 adj' x y = get2 adj x y).
+Proof.
+  induction W as [|[[n m] b] W IH]; intros adj adj' H; cbn [fold_res] in H.
+  - inversion H; subst. split; [reflexivity|]. split; [intros ? ? ? []|reflexivity].
+  - unfold link_req at 1 in H. cbn [fst snd] in H.
+    destruct (link adj n m b) as [adj1|] eqn:E1; [|discriminate].
+    destruct (link_ok _ _ _ _ _ E1) as (Hn & Hm & Hk & Hg).
+    destruct (IH adj1 adj' H) as (Hk' & Hin' & Hg').
+    split; [congruence|]. split.
+    + intros n' m' b' [E|Hin]; [inversion E; subst; split; assumption|].
+      rewrite <- Hk. eapply Hin'. exact Hin.
+    + intros x y Ht. cbn [targets existsb fst snd] in Ht. apply orb_false_iff in Ht. destruct Ht as [Ht1 Ht2].
+      rewrite (Hg' x y Ht2), Hg, Ht1. reflexivity.
+Qed.
+
+Lemma links_spec (v : Z -> Z -> bond) : forall W adj adj',
+  (forall n m b, In (n, m, b) W -> b = v n m /\ v m n = v n m) ->
+  (forall n m b b', In (n, m, b) W -> get2 adj m n = Some b' -> b' = v n m) ->
+  fold_res link_req W adj = Ok adj' ->
+  forall x y, get2 adj' x y = if targets W x y then Some (v x y) else get2 adj x y.
+Proof.
+  induction W as [|[[n m] b] W IH]; intros adj adj' HA HB H; cbn [fold_res] in H.
+  - inversion H; subst. reflexivity.
+  - unfold link_req at 1 in H. cbn [fst snd] in H.
+    destruct (link adj n m b) as [adj1|] eqn:E1; [|discriminate].
+    destruct (link_ok _ _ _ _ _ E1) as (_ & _ & _ & Hg).
+    destruct (HA n m b (or_introl eq_refl)) as [Hb Hsym].
+    assert (Hval : (match get2 adj m n with Some b0 => b0 | None => b end) = v n m).
+    { destruct (get2 adj m n) eqn:E; [eapply HB; [left; reflexivity|exact E]|exact Hb]. }
+    rewrite Hval in Hg.
+    intros x y. cbn [targets existsb fst snd]. fold (targets W x y).
+    rewrite (IH adj1 adj'); [| | |exact H].
+    + rewrite Hg. destruct (targets W x y); [rewrite orb_true_r; reflexivity|rewrite orb_false_r].
+      destruct ((x =? n) && (y =? m)) eqn:E; [|reflexivity].
+      apply andb_prop in E. destruct E as [Ex Ey]. apply Z.eqb_eq in Ex. apply Z.eqb_eq in Ey. subst. reflexivity.
+    + intros n' m' b' Hin. apply HA. right. exact Hin.
+    + intros n' m' b' b'' Hin Hget. rewrite Hg in Hget.
+      destruct ((m' =? n) && (n' =? m)) eqn:E.
+      * apply andb_prop in E. destruct E as [Ex Ey]. apply Z.eqb_eq in Ex. apply Z.eqb_eq in Ey. subst.
+        inversion Hget; subst. apply (proj2 (HA m n b' (or_intror Hin))).
+      * eapply HB; [right; exact Hin|exact Hget].
+Qed.
+
+Lemma fold_res_app {A S} (f : S -> A -> pyres S) (a b : list A) s :
+  fold_res f (a ++ b) s = match fold_res f a s with Ok s' => fold_res f b s' | Err e => Err e end.
+Proof.
+  revert s. induction a as [|x a IH]; intros s; cbn; [reflexivity|]. destruct (f s x); [apply IH|reflexivity].
+Qed.
+
+Lemma fold_res_flat {A B S} (f : S -> A -> pyres S) (h : S -> B -> pyres S) (k : A -> list B) :
+  (forall s a, f s a = fold_res h (k a) s) -> forall l s, fold_res f l s = fold_res h (flat_map k l) s.
+Proof.
+  intros Hf. induction l as [|a l IH]; intros s; cbn [fold_res flat_map]; [reflexivity|].
+  rewrite fold_res_app, Hf. destruct (fold_res h (k a) s); [apply IH|reflexivity].
+Qed.
+
+(* ---------- step 1: the atoms of the replacement ---------- *)
+Lemma truthy_get_zset mp n m n' : m <> 0 ->
+  truthy_get (zset mp n m) n' = if n' =? n then Some m else truthy_get mp n'.
+Proof.
+  intros Hm. unfold truthy_get. rewrite zget_zset. destruct (n' =? n); [|reflexivity].
+  destruct (Z.eqb_spec m 0); [contradiction|reflexivity].
+Qed.
+
+Lemma keys_zset_lockstep {V W} (d1 : list (Z * V)) (d2 : list (Z * W)) k v1 v2 :
+  keys d1 = keys d2 -> keys (zset d1 k v1) = keys (zset d2 k v2).
+Proof.
+  intros E. destruct (in_dec Z.eq_dec k (keys d1)) as [Hi|Hi].
+  - rewrite !keys_zset_present; [exact E|rewrite <- E; exact Hi|exact Hi].
+  - rewrite !keys_zset_absent; [rewrite E; reflexivity|rewrite <- E; exact Hi|exact Hi].
+Qed.
+
+Definition dummy_atom : atom := mkAtom 0 None 0 false None None.
+(* the atom the patcher builds for a replacement atom: sa = the matched atom (unused for a new atom) *)
+Definition built (ra : ratom) (sa : atom) (is_new : bool) : atom :=
+  match ra with
+  | RAny chg rad => mkAtom (a_num sa) (a_iso sa) chg rad None None
+  | RElem num iso chg rad h => mkAtom num iso chg rad (if is_new then h else None) None
+  end.
+
+Lemma patch_atom_ok g s n ra s' : patch_atom g s (n, ra) = Ok s' -> 0 <= p_max s ->
+  exists m a,
+    p_atoms s' = zset (p_atoms s) m a /\ p_adj s' = zset (p_adj s) m [] /\ truthy_get (p_map s') n = Some m /\
+    ((truthy_get (p_map s) n = Some m /\ p_map s' = p_map s /\ p_max s' = p_max s /\
+      exists sa, atom_of g m = Some sa /\ a = built ra sa false) \/
+     (truthy_get (p_map s) n = None /\ p_map s' = zset (p_map s) n m /\ m = p_max s + 1 /\ p_max s' = m /\
+      a = built ra dummy_atom true)).
+Proof.
+  unfold patch_atom. intros H Hmax. destruct ra as [chg rad|num iso chg rad h].
+  - destruct (truthy_get (p_map s) n) as [m|] eqn:Em; [|discriminate].
+    destruct (atom_of g m) as [sa|] eqn:Ea; [|discriminate].
+    inversion H; subst s'. cbn. eexists m, _. split; [reflexivity|]. split; [reflexivity|]. split; [exact Em|].
+    left. split; [reflexivity|]. split; [reflexivity|]. split; [reflexivity|]. exists sa. split; [exact Ea|reflexivity].
+  - destruct (truthy_get (p_map s) n) as [m|] eqn:Em.
+    + destruct (atom_of g m) as [sa|] eqn:Ea; [|discriminate].
+      inversion H; subst s'. cbn. eexists m, _. split; [reflexivity|]. split; [reflexivity|]. split; [exact Em|].
+      left. split; [reflexivity|]. split; [reflexivity|]. split; [reflexivity|]. exists sa. split; [exact Ea|reflexivity].
+    + inversion H; subst s'. cbn. eexists (p_max s + 1), _. split; [reflexivity|]. split; [reflexivity|].
+      split; [rewrite truthy_get_zset by lia; rewrite Z.eqb_refl; reflexivity|].
+      right. repeat (split; [reflexivity|]). reflexivity.
+Qed.
+
+Lemma patch_atoms_spec g : forall l s s', fold_res (patch_atom g) l s = Ok s' -> 0 <= p_max s ->
+  p_max s <= p_max s' /\
+  (forall n m, truthy_get (p_map s) n = Some m -> truthy_get (p_map s') n = Some m) /\
+  (forall n m, truthy_get (p_map s') n = Some m ->
+               truthy_get (p_map s) n = Some m \/ (In n (keys l) /\ p_max s < m <= p_max s')) /\
+  (forall x, In x (keys (p_atoms s')) <->
+             In x (keys (p_atoms s)) \/ exists n, In n (keys l) /\ truthy_get (p_map s') n = Some x) /\
+  (keys (p_adj s) = keys (p_atoms s) -> keys (p_adj s') = keys (p_atoms s')) /\
+  ((forall x l0, zget (p_adj s) x = Some l0 -> l0 = []) -> forall x l0, zget (p_adj s') x = Some l0 -> l0 = []) /\
+  (NoDup (keys (p_atoms s)) -> NoDup (keys (p_atoms s'))).
+Proof.
+  induction l as [|[n ra] l IH]; intros s s' H Hmax; cbn [fold_res] in H.
+  - inversion H; subst s'. split; [lia|]. split; [auto|]. split; [auto|]. split; [|auto].
+    intros x. split; [auto|]. intros [Hx|(n & [] & _)]. exact Hx.
+  - destruct (patch_atom g s (n, ra)) as [s1|] eqn:E1; [|discriminate].
+    destruct (patch_atom_ok _ _ _ _ _ E1 Hmax) as (m & a & Ha & Hadj & Hn1 & Hcase).
+    assert (Hmax1 : p_max s <= p_max s1 /\ 0 <= p_max s1) by (destruct Hcase as [(_ & _ & -> & _)|(_ & _ & -> & -> & _)]; lia).
+    assert (Hext1 : forall n' m', truthy_get (p_map s) n' = Some m' -> truthy_get (p_map s1) n' = Some m').
+    { intros n' m' Hg. destruct Hcase as [(_ & -> & _)|(Hnone & -> & -> & _)]; [exact Hg|].
+      rewrite truthy_get_zset by lia. destruct (Z.eqb_spec n' n); [subst; congruence|exact Hg]. }
+    assert (Hnew1 : forall n' m', truthy_get (p_map s1) n' = Some m' ->
+                                  truthy_get (p_map s) n' = Some m' \/ (n' = n /\ p_max s < m' <= p_max s1)).
+    { intros n' m' Hg. destruct Hcase as [(_ & E & _)|(Hnone & E & Em & Emax & _)]; rewrite E in Hg; [left; exact Hg|].
+      rewrite truthy_get_zset in Hg by lia. destruct (Z.eqb_spec n' n); [|left; exact Hg].
+      right. inversion Hg; subst. split; [reflexivity|lia]. }
+    destruct (IH s1 s' H (proj2 Hmax1)) as (I1 & I2 & I3 & I4 & I5 & I6 & I7).
+    split; [lia|]. split; [auto|]. split; [|split; [|split; [|split]]].
+    + intros n' m' Hg. destruct (I3 n' m' Hg) as [Hg1|(Hin & Hr)].
+      * destruct (Hnew1 n' m' Hg1) as [?|(-> & Hr)]; [left; assumption|]. right. split; [left; reflexivity|lia].
+      * right. split; [right; exact Hin|lia].
+    + intros x. rewrite I4, Ha, keys_zset_In. cbn [keys map fst]. split.
+      * intros [[->|Hx]|(n' & Hin & Hg)].
+        -- right. exists n. split; [left; reflexivity|]. apply I2. exact Hn1.
+        -- left. exact Hx.
+        -- right. exists n'. split; [right; exact Hin|exact Hg].
+      * intros [Hx|(n' & [<-|Hin] & Hg)].
+        -- left. right. exact Hx.
+        -- left. left. apply I2 in Hn1. congruence.
+        -- right. exists n'. split; assumption.
+    + intros Hk. apply I5. rewrite Ha, Hadj. apply keys_zset_lockstep. exact Hk.
+    + intros Hall. apply I6. intros x l0. rewrite Hadj, zget_zset. destruct (x =? m); [congruence|apply Hall].
+    + intros Hnd. apply I7. rewrite Ha. apply NoDup_keys_zset. exact Hnd.
+Qed.
+
+(* an atom that no later replacement atom is mapped to keeps its value *)
+Lemma patch_atoms_preserve g : forall l s s', fold_res (patch_atom g) l s = Ok s' -> 0 <= p_max s ->
+  forall x, x <= p_max s -> (forall n, In n (keys l) -> truthy_get (p_map s) n <> Some x) ->
+  zget (p_atoms s') x = zget (p_atoms s) x.
+Proof.
+  induction l as [|[n ra] l IH]; intros s s' H Hmax x Hx Hno; cbn [fold_res] in H.
+  - inversion H; subst. reflexivity.
+  - destruct (patch_atom g s (n, ra)) as [s1|] eqn:E1; [|discriminate].
+    destruct (patch_atom_ok _ _ _ _ _ E1 Hmax) as (m & a & Ha & _ & _ & Hcase).
+    assert (Hm : m <> x).
+    { destruct Hcase as [(Hg & _)|(_ & _ & -> & _)]; [|lia]. intros ->. apply (Hno n); [left; reflexivity|exact Hg]. }
+    rewrite (IH s1 s' H).
+    + rewrite Ha. apply zget_zset_other. congruence.
+    + destruct Hcase as [(_ & _ & -> & _)|(_ & _ & -> & -> & _)]; lia.
+    + destruct Hcase as [(_ & _ & -> & _)|(_ & _ & -> & -> & _)]; lia.
+    + intros n' Hin. destruct Hcase as [(_ & -> & _)|(_ & -> & Em & _)]; [apply Hno; right; exact Hin|].
+      rewrite truthy_get_zset by lia. destruct (n' =? n); [congruence|apply Hno; right; exact Hin].
+Qed.
+
+(* the match is injective on the atoms of the replacement and its images are numbers in use *)
+Definition inj_on (T : list Z) (mp : list (Z * Z)) (mx : Z) : Prop :=
+  (forall n1 n2 m, In n1 T -> In n2 T -> truthy_get mp n1 = Some m -> truthy_get mp n2 = Some m -> n1 = n2) /\
+  (forall n m, In n T -> truthy_get mp n = Some m -> m <= mx).
+
+Lemma patch_atoms_values g T : forall l s s', fold_res (patch_atom g) l s = Ok s' -> 0 <= p_max s ->
+  NoDup (keys l) -> incl (keys l) T -> inj_on T (p_map s) (p_max s) ->
+  forall n ra, In (n, ra) l ->
+    exists m, truthy_get (p_map s') n = Some m /\
+      ((truthy_get (p_map s) n = Some m /\ exists sa, atom_of g m = Some sa /\ zget (p_atoms s') m = Some (built ra sa false)) \/
+       (truthy_get (p_map s) n = None /\ p_max s < m /\ zget (p_atoms s') m = Some (built ra dummy_atom true))).
+Proof.
+  induction l as [|[n0 ra0] l IH]; intros s s' H Hmax Hnd Hincl Hinj n ra Hin; [destruct Hin|].
+  cbn [fold_res] in H. destruct (patch_atom g s (n0, ra0)) as [s1|] eqn:E1; [|discriminate].
+  destruct (patch_atom_ok _ _ _ _ _ E1 Hmax) as (m & a & Ha & _ & Hn1 & Hcase).
+  cbn [keys map fst] in Hnd, Hincl. inversion Hnd as [|? ? Hn0 Hnd']; subst.
+  assert (Hmax1 : 0 <= p_max s1 /\ p_max s <= p_max s1) by (destruct Hcase as [(_ & _ & -> & _)|(_ & _ & -> & -> & _)]; lia).
+  assert (Hinj1 : inj_on T (p_map s1) (p_max s1)).
+  { destruct Hinj as [Hi Hb]. destruct Hcase as [(_ & -> & -> & _)|(Hnone & -> & Em & -> & _)]; [split; assumption|].
+    split.
+    - intros n1 n2 m' H1 H2. rewrite !truthy_get_zset by lia.
+      destruct (Z.eqb_spec n1 n0), (Z.eqb_spec n2 n0); subst; try congruence.
+      + intros E1' E2'. inversion E1'; subst m'. specialize (Hb n2 _ H2 E2'). lia.
+      + intros E1' E2'. inversion E2'; subst m'. specialize (Hb n1 _ H1 E1'). lia.
+      + apply Hi; assumption.
+    - intros n' m' Hn'. rewrite truthy_get_zset by lia. destruct (n' =? n0).
+      + intros E. inversion E. lia.
+      + intros E. specialize (Hb n' m' Hn' E). lia. }
+  destruct (patch_atoms_spec g l s1 s' H (proj1 Hmax1)) as (_ & Hext & _).
+  destruct Hin as [E|Hin].
+  - inversion E; subst n0 ra0. exists m. split; [apply Hext; exact Hn1|].
+    assert (Hkeep : zget (p_atoms s') m = Some a).
+    { rewrite (patch_atoms_preserve g l s1 s' H (proj1 Hmax1) m).
+      - rewrite Ha. apply zget_zset_same.
+      - destruct Hcase as [(Hg & _ & -> & _)|(_ & _ & _ & -> & _)]; [|lia].
+        apply (proj2 Hinj n m); [apply Hincl; left; reflexivity|exact Hg].
+      - intros n' Hn' Hg. apply Hn0.
+        assert (n' = n); [|subst; exact Hn'].
+        apply (proj1 Hinj1 n' n m); [apply Hincl; right; exact Hn'|apply Hincl; left; reflexivity|exact Hg|exact Hn1]. }
+    destruct Hcase as [(Hg & _ & _ & sa & Hsa & ->)|(Hnone & _ & Em & _ & ->)].
+    + left. split; [exact Hg|]. exists sa. split; [exact Hsa|exact Hkeep].
+    + right. split; [exact Hnone|]. split; [lia|exact Hkeep].
+  - assert (Hne : n <> n0).
+    { intros ->. apply Hn0. unfold keys. apply in_map_iff. exists (n0, ra). split; [reflexivity|exact Hin]. }
+    assert (Hsame : truthy_get (p_map s1) n = truthy_get (p_map s) n).
+    { destruct Hcase as [(_ & -> & _)|(_ & -> & Em & _)]; [reflexivity|].
+      rewrite truthy_get_zset by lia. destruct (Z.eqb_spec n n0); [contradiction|reflexivity]. }
+    destruct (IH s1 s' H (proj1 Hmax1) Hnd' (fun y Hy => Hincl y (or_intror Hy)) Hinj1 n ra Hin) as (m' & Hm' & Hc).
+    exists m'. split; [exact Hm'|]. rewrite Hsame in Hc.
+    destruct Hc as [Hc|(Hc1 & Hc2 & Hc3)]; [left; exact Hc|]. right. split; [exact Hc1|]. split; [lia|exact Hc3].
+Qed.
+
+(* ---------- well-formed molecules ---------- *)
+Lemma list_eqb_Z_eq' a b : list_eqb Z.eqb a b = true -> a = b.
+Proof.
+  revert b. induction a as [|x a IH]; intros [|y b] H; try discriminate; [reflexivity|].
+  cbn in H. apply andb_prop in H. destruct H as [H1 H2]. apply Z.eqb_eq in H1. subst. f_equal. apply IH. exact H2.
+Qed.
+
+Lemma nodup_z_NoDup l : nodup_z l = true -> NoDup l.
+Proof.
+  induction l as [|x l IH]; cbn; [constructor|]. intros H. apply andb_prop in H. destruct H as [H1 H2].
+  constructor; [apply zmem_false; apply negb_true_iff; exact H1|apply IH; exact H2].
+Qed.
+
+Lemma In_NoDup_zget {V} (d : list (Z * V)) k v : NoDup (keys d) -> In (k, v) d -> zget d k = Some v.
+Proof.
+  induction d as [|[k' v'] d IH]; cbn; [intros _ []|].
+  intros Hnd [E|Hin].
+  - inversion E; subst. rewrite Z.eqb_refl. reflexivity.
+  - inversion Hnd as [|? ? Hk Hnd']; subst. destruct (Z.eqb_spec k k').
+    + subst. exfalso. apply Hk. unfold keys. apply in_map_iff. exists (k', v). split; [reflexivity|exact Hin].
+    + apply IH; assumption.
+Qed.
+
+Lemma wf_mol_facts g : wf_mol g = true ->
+  NoDup (ids g) /\ keys (m_adj g) = ids g /\
+  forall n bs, In (n, bs) (m_adj g) ->
+    NoDup (keys bs) /\
+    forall m b, In (m, b) bs -> m <> n /\ In m (ids g) /\ exists b', bond_of g m n = Some b' /\ b_ord b = b_ord b'.
+Proof.
+  unfold wf_mol. intros H. apply andb_prop in H. destruct H as [H H3]. apply andb_prop in H. destruct H as [H1 H2].
+  apply list_eqb_Z_eq' in H1. split; [apply nodup_z_NoDup; exact H2|]. split; [symmetry; exact H1|].
+  intros n bs Hin. rewrite forallb_forall in H3. specialize (H3 (n, bs) Hin). cbn [fst snd] in H3.
+  apply andb_prop in H3. destruct H3 as [Hnd Hall]. split; [apply nodup_z_NoDup; exact Hnd|].
+  intros m b Hmb. rewrite forallb_forall in Hall. specialize (Hall (m, b) Hmb). cbn [fst snd] in Hall.
+  apply andb_prop in Hall. destruct Hall as [Hall Hb]. apply andb_prop in Hall. destruct Hall as [Hne Hm].
+  split; [apply Z.eqb_neq; apply negb_true_iff; exact Hne|]. split; [apply zmem_In; exact Hm|].
+  destruct (bond_of g m n) as [b'|]; [|discriminate]. exists b'. split; [reflexivity|].
+  unfold bond_eqb in Hb. apply andb_prop in Hb. apply Z.eqb_eq. exact (proj1 Hb).
+Qed.
+
+Lemma fold_left_max_ge : forall r a, a <= fold_left Z.max r a /\ forall x, In x r -> x <= fold_left Z.max r a.
+Proof.
+  induction r as [|y r IH]; intros a; cbn; [split; [lia|intros ? []]|].
+  destruct (IH (Z.max a y)) as [H1 H2]. split; [lia|]. intros x [->|Hx]; [lia|apply H2; exact Hx].
+Qed.
+
+Lemma fold_left_max_In : forall r a, fold_left Z.max r a = a \/ In (fold_left Z.max r a) r.
+Proof.
+  induction r as [|y r IH]; intros a; cbn; [left; reflexivity|].
+  destruct (IH (Z.max a y)) as [H|H]; [|right; right; exact H].
+  rewrite H. destruct (Z.max_spec a y) as [[_ ->]|[_ ->]]; [right; left; reflexivity|left; reflexivity].
+Qed.
+
+Lemma zmax_list_spec l mx : zmax_list l = Some mx -> In mx l /\ forall x, In x l -> x <= mx.
+Proof.
+  destruct l as [|a r]; cbn; [discriminate|]. intros H. inversion H; subst mx.
+  destruct (fold_left_max_ge r a) as [H1 H2]. split.
+  - destruct (fold_left_max_In r a) as [->|Hi]; [left; reflexivity|right; exact Hi].
+  - intros x [<-|Hx]; [exact H1|apply H2; exact Hx].
+Qed.
+
+(* ---------- step 3: atoms the template does not touch ---------- *)
+Lemma get2_zset_nil (adj : adjT) n x y b : get2 (zset adj n []) x y = Some b -> get2 adj x y = Some b.
+Proof.
+  unfold get2. rewrite zget_zset. destruct (x =? n); [cbn; discriminate|auto].
+Qed.
+
+Lemma keep_atoms_spec P del : forall l st,
+  (keys (snd st) = keys (fst st) -> keys (snd (fold_left (keep_atom P del) l st)) = keys (fst (fold_left (keep_atom P del) l st))) /\
+  (NoDup (keys (fst st)) -> NoDup (keys (fst (fold_left (keep_atom P del) l st)))) /\
+  (forall x, In x (keys (fst (fold_left (keep_atom P del) l st))) <->
+             In x (keys (fst st)) \/ (In x (keys l) /\ ~ In x P /\ ~ In x del)) /\
+  (forall x, In x P \/ In x del \/ ~ In x (keys l) ->
+             zget (fst (fold_left (keep_atom P del) l st)) x = zget (fst st) x /\
+             zget (snd (fold_left (keep_atom P del) l st)) x = zget (snd st) x) /\
+  (forall x y b, get2 (snd (fold_left (keep_atom P del) l st)) x y = Some b -> get2 (snd st) x y = Some b).
+Proof.
+  induction l as [|[n a] l IH]; intros st; cbn [fold_left].
+  - split; [auto|]. split; [auto|]. split; [|split; [auto|auto]].
+    intros x. split; [auto|]. intros [H|([] & _)]. exact H.
+  - destruct (IH (keep_atom P del st (n, a))) as (I1 & I2 & I3 & I4 & I5).
+    unfold keep_atom in *. cbn [fst snd] in *.
+    destruct (zmem n P || zmem n del) eqn:E.
+    + split; [exact I1|]. split; [exact I2|]. split; [|split].
+      * intros x. rewrite I3. cbn [keys map fst In]. split; [intros [H|(H1 & H2 & H3)]; auto|].
+        intros [H|([->|H1] & H2 & H3)]; auto. exfalso.
+        apply orb_true_iff in E. destruct E as [E|E]; apply zmem_In in E; contradiction.
+      * intros x Hx. apply I4. cbn [keys map fst In] in Hx. destruct Hx as [Hx|[Hx|Hx]]; auto.
+        destruct (Z.eq_dec x n) as [->|Hne].
+        -- apply orb_true_iff in E. destruct E as [E|E]; apply zmem_In in E; auto.
+        -- right. right. intros Hi. apply Hx. right. exact Hi.
+      * exact I5.
+    + apply orb_false_iff in E. destruct E as [EP Ed]. apply zmem_false in EP. apply zmem_false in Ed.
+      cbn [fst snd] in *. split; [|split; [|split; [|split]]].
+      * intros Hk. apply I1. apply keys_zset_lockstep. exact Hk.
+      * intros Hnd. apply I2. apply NoDup_keys_zset. exact Hnd.
+      * intros x. rewrite I3, keys_zset_In. cbn [keys map fst In]. split.
+        -- intros [[->|H]|(H1 & H2 & H3)]; auto.
+        -- intros [H|([->|H1] & H2 & H3)]; auto.
+      * intros x Hx. cbn [keys map fst In] in Hx.
+        assert (Hne : x <> n).
+        { destruct Hx as [Hx|[Hx|Hx]]; [intros ->; contradiction|intros ->; contradiction|intros ->; apply Hx; left; reflexivity]. }
+        assert (Hx' : In x P \/ In x del \/ ~ In x (keys l)).
+        { destruct Hx as [Hx|[Hx|Hx]]; auto. right. right. intros Hi. apply Hx. right. exact Hi. }
+        destruct (I4 x Hx') as [J1 J2]. rewrite J1, J2, !zget_zset_other by exact Hne. split; reflexivity.
+      * intros x y b Hg. apply I5 in Hg. eapply get2_zset_nil. exact Hg.
+Qed.
+
+Lemma keep_atoms_value P del : forall l st x a, NoDup (keys l) -> In (x, a) l -> ~ In x P -> ~ In x del ->
+  zget (fst (fold_left (keep_atom P del) l st)) x = Some (plain_atom a).
+Proof.
+  induction l as [|[n a0] l IH]; intros st x a Hnd Hin HP Hd; [destruct Hin|].
+  cbn [keys map fst] in Hnd. inversion Hnd as [|? ? Hn Hnd']; subst. cbn [fold_left].
+  destruct Hin as [E|Hin].
+  - inversion E; subst n a0.
+    destruct (keep_atoms_spec P del l (keep_atom P del st (x, a))) as (_ & _ & _ & I4 & _).
+    rewrite (proj1 (I4 x (or_intror (or_intror Hn)))).
+    unfold keep_atom. cbn [fst snd].
+    assert (E1 : zmem x P || zmem x del = false) by (apply orb_false_iff; split; apply zmem_false; assumption).
+    rewrite E1. cbn [fst]. apply zget_zset_same.
+  - apply IH; assumption.
+Qed.
+
+(* ---------- steps 2 and 4 as sequences of link requests ---------- *)
+Definition keep_reqs (P del : list Z) (nbs : Z * list (Z * bond)) : list req :=
+  if zmem (fst nbs) del then []
+  else flat_map (fun mb => if zmem (fst mb) del || (zmem (fst nbs) P && zmem (fst mb) P) then []
+                           else [(fst nbs, fst mb, plain (snd mb))]) (snd nbs).
+
+Lemma keep_bonds_of_flat P del adj nbs : keep_bonds_of P del adj nbs = fold_res link_req (keep_reqs P del nbs) adj.
+Proof.
+  unfold keep_bonds_of, keep_reqs. destruct (zmem (fst nbs) del); [reflexivity|].
+  apply fold_res_flat. intros s mb.
+  destruct (zmem (fst mb) del || (zmem (fst nbs) P && zmem (fst mb) P)); [reflexivity|].
+  cbn [fold_res]. unfold link_req. cbn [fst snd]. destruct (link s (fst nbs) (fst mb) (plain (snd mb))); reflexivity.
+Qed.
+
+Lemma keep_reqs_In P del l n m b :
+  In (n, m, b) (flat_map (keep_reqs P del) l) <->
+  exists bs b0, In (n, bs) l /\ In (m, b0) bs /\ b = plain b0 /\ ~ In n del /\ ~ In m del /\ ~ (In n P /\ In m P).
+Proof.
+  rewrite in_flat_map. split.
+  - intros ([n' bs] & Hin & Hreq). unfold keep_reqs in Hreq. cbn [fst snd] in Hreq.
+    destruct (zmem n' del) eqn:En; [destruct Hreq|]. apply zmem_false in En.
+    apply in_flat_map in Hreq. destruct Hreq as ([m' b0] & Hmb & Hreq). cbn [fst snd] in Hreq.
+    destruct (zmem m' del || (zmem n' P && zmem m' P)) eqn:Ec; [destruct Hreq|].
+    destruct Hreq as [E|[]]. inversion E; subst n' m' b.
+    apply orb_false_iff in Ec. destruct Ec as [Em Eb]. apply zmem_false in Em.
+    exists bs, b0. repeat (split; [assumption || reflexivity|]).
+    intros [Hn Hm]. apply zmem_In in Hn. apply zmem_In in Hm. rewrite Hn, Hm in Eb. discriminate.
+  - intros (bs & b0 & Hin & Hmb & -> & Hn & Hm & Hb). exists (n, bs). split; [exact Hin|].
+    unfold keep_reqs. cbn [fst snd]. apply zmem_false in Hn. rewrite Hn.
+    apply in_flat_map. exists (m, b0). split; [exact Hmb|]. cbn [fst snd].
+    apply zmem_false in Hm. rewrite Hm. cbn [orb].
+    destruct (zmem n P && zmem m P) eqn:Eb; [|left; reflexivity].
+    exfalso. apply andb_prop in Eb. destruct Eb as [E1 E2]. apply Hb. split; apply zmem_In; assumption.
+Qed.
+
+Fixpoint opt_flat {A} (l : list (option (list A))) : option (list A) :=
+  match l with
+  | [] => Some []
+  | None :: _ => None
+  | Some a :: r => match opt_flat r with Some b => Some (a ++ b) | None => None end
+  end.
+
+Definition tpl_reqs_of (mp : list (Z * Z)) (nbs : Z * list (Z * bond)) : option (list req) :=
+  match zget mp (fst nbs) with
+  | None => None
+  | Some n => opt_flat (map (fun mrb => match zget mp (fst mrb) with
+                                        | None => None
+                                        | Some m => Some [(n, m, plain (snd mrb))]
+                                        end) (snd nbs))
+  end.
+Definition tpl_reqs (mp : list (Z * Z)) (tb : list (Z * list (Z * bond))) : option (list req) :=
+  opt_flat (map (tpl_reqs_of mp) tb).
+
+Lemma patch_bonds_of_flat mp nbs adj adj' : patch_bonds_of mp adj nbs = Ok adj' ->
+  exists W, tpl_reqs_of mp nbs = Some W /\ fold_res link_req W adj = Ok adj'.
+Proof.
+  unfold patch_bonds_of, tpl_reqs_of. destruct (zget mp (fst nbs)) as [n|]; [|discriminate].
+  generalize (snd nbs). intros bs. revert adj. induction bs as [|[m0 rb] bs IH]; intros adj H; cbn [fold_res map opt_flat] in *.
+  - inversion H; subst. exists []. split; reflexivity.
+  - cbn [fst snd] in *. destruct (zget mp m0) as [m|]; [|discriminate].
+    destruct (link adj n m (plain rb)) as [adj1|] eqn:E1; [|discriminate].
+    destruct (IH adj1 H) as (W & EW & HW). rewrite EW. exists ((n, m, plain rb) :: W). split; [reflexivity|].
+    cbn [fold_res app]. unfold link_req at 1. cbn [fst snd]. rewrite E1. exact HW.
+Qed.
+
+Lemma patch_bonds_flat mp : forall tb adj adj', fold_res (patch_bonds_of mp) tb adj = Ok adj' ->
+  exists W, tpl_reqs mp tb = Some W /\ fold_res link_req W adj = Ok adj'.
+Proof.
+  unfold tpl_reqs. induction tb as [|nbs tb IH]; intros adj adj' H; cbn [fold_res map opt_flat] in *.
+  - inversion H; subst. exists []. split; reflexivity.
+  - destruct (patch_bonds_of mp adj nbs) as [adj1|] eqn:E1; [|discriminate].
+    destruct (patch_bonds_of_flat _ _ _ _ E1) as (W1 & EW1 & HW1). rewrite EW1.
+    destruct (IH adj1 adj' H) as (W & EW & HW). rewrite EW. exists (W1 ++ W). split; [reflexivity|].
+    rewrite fold_res_app, HW1. exact HW.
+Qed.
+
+Lemma opt_flat_In {A} (l : list (option (list A))) W x :
+  opt_flat l = Some W -> (In x W <-> exists a, In (Some a) l /\ In x a).
+Proof.
+  revert W. induction l as [|[a|] l IH]; intros W; cbn [opt_flat].
+  - intros H. inversion H; subst. split; [intros []|intros (a & [] & _)].
+  - destruct (opt_flat l) as [b|]; [|discriminate]. intros H. inversion H; subst W.
+    rewrite in_app_iff, (IH b eq_refl). split.
+    + intros [Hx|(a' & Hin & Hx)]; [exists a; split; [left; reflexivity|exact Hx]|exists a'; split; [right; exact Hin|exact Hx]].
+    + intros (a' & [E|Hin] & Hx); [inversion E; subst; left; exact Hx|right; exists a'; split; assumption].
+  - discriminate.
+Qed.
+
+Lemma opt_flat_all_some {A B} (f : A -> option (list B)) l W a :
+  opt_flat (map f l) = Some W -> In a l -> exists r, f a = Some r.
+Proof.
+  revert W. induction l as [|a0 l IH]; intros W H Hin; [destruct Hin|]. cbn [map opt_flat] in H.
+  destruct (f a0) as [r0|] eqn:E; [|discriminate]. destruct (opt_flat (map f l)) as [r1|] eqn:E2; [|discriminate].
+  destruct Hin as [->|Hin]; [eexists; exact E|]. eapply IH; [reflexivity|exact Hin].
+Qed.
+
+Lemma tpl_reqs_In mp tb W x y b : tpl_reqs mp tb = Some W ->
+  (In (x, y, b) W <-> exists n0 bs m0 rb, In (n0, bs) tb /\ In (m0, rb) bs /\
+                                          zget mp n0 = Some x /\ zget mp m0 = Some y /\ b = plain rb).
+Proof.
+  unfold tpl_reqs. intros H. rewrite (opt_flat_In _ _ _ H). split.
+  - intros (a & Hin & Hx). apply in_map_iff in Hin. destruct Hin as ([n0 bs] & Ea & Hin).
+    unfold tpl_reqs_of in Ea. cbn [fst snd] in Ea. destruct (zget mp n0) as [n|] eqn:En; [|discriminate].
+    rewrite (opt_flat_In _ _ _ Ea) in Hx. destruct Hx as (a' & Hin' & Hx').
+    apply in_map_iff in Hin'. destruct Hin' as ([m0 rb] & Ea' & Hin'). cbn [fst snd] in Ea'.
+    destruct (zget mp m0) as [m|] eqn:Em; [|discriminate]. inversion Ea'; subst a'.
+    destruct Hx' as [E|[]]. inversion E; subst. exists n0, bs, m0, rb. repeat (split; [assumption|]). reflexivity.
+  - intros (n0 & bs & m0 & rb & Hin & Hmb & En & Em & ->).
+    assert (Hsome : exists a, tpl_reqs_of mp (n0, bs) = Some a) by (eapply opt_flat_all_some; [exact H|exact Hin]).
+    destruct Hsome as [a Ea]. exists a. split; [apply in_map_iff; exists (n0, bs); split; [exact Ea|exact Hin]|].
+    unfold tpl_reqs_of in Ea. cbn [fst snd] in Ea. rewrite En in Ea.
+    rewrite (opt_flat_In _ _ _ Ea). exists [(x, y, plain rb)]. split; [|left; reflexivity].
+    apply in_map_iff. exists (m0, rb). cbn [fst snd]. rewrite Em. split; [reflexivity|exact Hmb].
+Qed.
+
+(* ---------- the anatomy of one patcher run ---------- *)
+(* x is an atom of the product that the replacement names (image of a replacement atom under the extended mapping) *)
+Definition named (tpl : template) (mp' : list (Z * Z)) (x : Z) : Prop :=
+  exists n, In n (keys (t_atoms tpl)) /\ truthy_get mp' n = Some x.
+
+Lemma get2_all_nil (adj : adjT) x y : (forall x l0, zget adj x = Some l0 -> l0 = []) -> get2 adj x y = None.
+Proof.
+  intros H. unfold get2. destruct (zget adj x) as [l0|] eqn:E; [rewrite (H x l0 E)|]; reflexivity.
+Qed.
+
+Lemma truthy_get_zget mp n m : truthy_get mp n = Some m -> zget mp n = Some m /\ m <> 0.
+Proof.
+  unfold truthy_get. destruct (zget mp n) as [m0|]; [|discriminate]. destruct (Z.eqb_spec m0 0); [discriminate|].
+  intros H. inversion H; subst. split; [reflexivity|assumption].
+Qed.
+
+Lemma patch_atoms_mapped g : forall l s s', fold_res (patch_atom g) l s = Ok s' -> 0 <= p_max s ->
+  forall n, In n (keys l) -> exists m, truthy_get (p_map s') n = Some m.
+Proof.
+  induction l as [|[n0 ra] l IH]; intros s s' H Hmax n Hn; [destruct Hn|]. cbn [fold_res] in H.
+  destruct (patch_atom g s (n0, ra)) as [s1|] eqn:E1; [|discriminate].
+  destruct (patch_atom_ok _ _ _ _ _ E1 Hmax) as (m & a & _ & _ & Hn1 & Hcase).
+  assert (Hmax1 : 0 <= p_max s1) by (destruct Hcase as [(_ & _ & -> & _)|(_ & _ & -> & -> & _)]; lia).
+  destruct Hn as [<-|Hn]; [|eapply IH; eassumption].
+  exists m. apply (proj1 (proj2 (patch_atoms_spec g l s1 s' H Hmax1))). exact Hn1.
+Qed.
+
+Lemma patcher_anatomy g mapping tpl del new mp' :
+  patcher g mapping tpl del = Ok (new, mp') -> (forall x, In x (ids g) -> 0 < x) ->
+  exists mx s1 adj2 W2 atoms3 adj3 adj4,
+    zmax_list (ids g) = Some mx /\ 0 < mx /\
+    fold_res (patch_atom g) (t_atoms tpl) (mkP [] [] mapping mx) = Ok s1 /\ mp' = p_map s1 /\
+    tpl_reqs mp' (t_bonds tpl) = Some W2 /\ fold_res link_req W2 (p_adj s1) = Ok adj2 /\
+    fold_left (keep_atom (keys (p_atoms s1)) del) (m_atoms g) (p_atoms s1, adj2) = (atoms3, adj3) /\
+    fold_res link_req (flat_map (keep_reqs (keys (p_atoms s1)) del) (m_adj g)) adj3 = Ok adj4 /\
+    new = mkMol atoms3 adj4 /\
+    (forall x, In x (keys (p_atoms s1)) <-> named tpl mp' x) /\
+    keys (p_adj s1) = keys (p_atoms s1) /\ NoDup (keys (p_atoms s1)) /\
+    (forall x y, get2 (p_adj s1) x y = None).
+Proof.
+  unfold patcher. intros H Hpos.
+  destruct (zmax_list (ids g)) as [mx|] eqn:Emx; [|discriminate].
+  destruct (fold_res (patch_atom g) (t_atoms tpl) (mkP [] [] mapping mx)) as [s1|] eqn:E1; [|discriminate].
+  destruct (fold_res (patch_bonds_of (p_map s1)) (t_bonds tpl) (p_adj s1)) as [adj2|] eqn:E2; [|discriminate].
+  destruct (fold_left (keep_atom (keys (p_atoms s1)) del) (m_atoms g) (p_atoms s1, adj2)) as [atoms3 adj3] eqn:E3.
+  destruct (fold_res (keep_bonds_of (keys (p_atoms s1)) del) (m_adj g) adj3) as [adj4|] eqn:E4; [|discriminate].
+  inversion H; subst new mp'. clear H.
+  destruct (patch_bonds_flat _ _ _ _ E2) as (W2 & EW2 & HW2).
+  assert (Hmx : 0 < mx) by (apply Hpos; apply (zmax_list_spec _ _ Emx)).
+  destruct (patch_atoms_spec g _ _ _ E1) as (_ & _ & _ & I4 & I5 & I6 & I7); [cbn; lia|]. cbn [p_atoms p_adj p_map p_max] in *.
+  exists mx, s1, adj2, W2, atoms3, adj3, adj4.
+  split; [first [reflexivity|exact Emx]|]. split; [exact Hmx|]. split; [first [reflexivity|exact E1]|]. split; [reflexivity|].
+  split; [exact EW2|]. split; [exact HW2|]. split; [first [reflexivity|exact E3]|].
+  split; [etransitivity; [|exact E4]; symmetry; apply fold_res_flat; intros; apply keep_bonds_of_flat|].
+  split; [reflexivity|]. split.
+  { intros x. rewrite I4. unfold named. cbn. tauto. }
+  split; [apply I5; reflexivity|]. split; [apply I7; constructor|].
+  intros x y. apply get2_all_nil. apply I6. intros ? ? Hc. discriminate.
+Qed.
+
+Section PatcherTheorems.
+  Variables (g : mol) (mapping : list (Z * Z)) (tpl : template) (del : list Z) (new : mol) (mp' : list (Z * Z)).
+  Hypothesis Hrun : patcher g mapping tpl del = Ok (new, mp').
+  Hypothesis Hwf : wf_mol g = true.
+  Hypothesis Hpos : forall x, In x (ids g) -> 0 < x.
+
+  (* bonds of the intermediate adjacency join replacement atoms only *)
+  Lemma anatomy_adj3 s1 adj2 W2 atoms3 adj3 :
+    fold_res link_req W2 (p_adj s1) = Ok adj2 ->
+    fold_left (keep_atom (keys (p_atoms s1)) del) (m_atoms g) (p_atoms s1, adj2) = (atoms3, adj3) ->
+    keys (p_adj s1) = keys (p_atoms s1) -> (forall x y, get2 (p_adj s1) x y = None) ->
+    (forall x y b, get2 adj3 x y = Some b -> In x (keys (p_atoms s1)) /\ In y (keys (p_atoms s1))) /\
+    (forall x y, In x (keys (p_atoms s1)) -> get2 adj3 x y = get2 adj2 x y) /\
+    keys adj3 = keys atoms3.
+  Proof.
+    intros HW2 E3 Hk Hnil.
+    destruct (links_keys _ _ _ HW2) as (Hk2 & Hin2 & Hun2).
+    destruct (keep_atoms_spec (keys (p_atoms s1)) del (m_atoms g) (p_atoms s1, adj2)) as (K1 & _ & _ & K4 & K5).
+    rewrite E3 in *. cbn [fst snd] in *.
+    split; [|split].
+    - intros x y b Hg. apply K5 in Hg.
+      destruct (targets W2 x y) eqn:Et.
+      + apply targets_In in Et. destruct Et as [b0 Hb0]. destruct (Hin2 _ _ _ Hb0) as [Hx Hy]. rewrite Hk in *. split; assumption.
+      + rewrite (Hun2 x y Et), Hnil in Hg. discriminate.
+    - intros x y Hx. unfold get2. rewrite (proj2 (K4 x (or_introl Hx))). reflexivity.
+    - apply K1. congruence.
+  Qed.
+
+  Theorem patcher_frame :
+    (* atoms the template does not name and that are not deleted keep element, isotope, charge, radical, hydrogens *)
+    (forall x a, atom_of g x = Some a -> ~ named tpl mp' x -> ~ In x del -> atom_of new x = Some (plain_atom a)) /\
+    (* bonds between surviving atoms, at least one of them not named by the template, are kept with their order *)
+    (forall x y, In x (ids g) -> In y (ids g) -> ~ In x del -> ~ In y del -> ~ (named tpl mp' x /\ named tpl mp' y) ->
+                 bond_of new x y = option_map plain (bond_of g x y)) /\
+    (* and no other bond touches an atom the template does not name *)
+    (forall x y b, bond_of new x y = Some b -> ~ (named tpl mp' x /\ named tpl mp' y) ->
+                   exists b0, bond_of g x y = Some b0 /\ b = plain b0 /\ ~ In x del /\ ~ In y del) /\
+    (* the atoms of the product: the named ones and the surviving ones; numbers are unique *)
+    (forall x, In x (ids new) <-> named tpl mp' x \/ (In x (ids g) /\ ~ In x del)) /\
+    NoDup (ids new) /\ keys (m_adj new) = ids new.
+  Proof.
+    destruct (patcher_anatomy _ _ _ _ _ _ Hrun Hpos)
+      as (mx & s1 & adj2 & W2 & atoms3 & adj3 & adj4 & Emx & Hmx & E1 & Emp & EW2 & HW2 & E3 & HW4 & Enew & HP & Hk1 & Hnd1 & Hnil).
+    destruct (wf_mol_facts g Hwf) as (Hnd & Hkeys & Hadj).
+    destruct (anatomy_adj3 s1 adj2 W2 atoms3 adj3 HW2 E3 Hk1 Hnil) as (A1 & A2 & A3).
+    set (P := keys (p_atoms s1)) in *.
+    destruct (keep_atoms_spec P del (m_atoms g) (p_atoms s1, adj2)) as (K1 & K2 & K3 & K4 & K5).
+    rewrite E3 in *. cbn [fst snd] in *.
+    set (v := fun x y => match bond_of g x y with Some b => plain b | None => mkBond 0 None end).
+    set (W4 := flat_map (keep_reqs P del) (m_adj g)) in *.
+    (* every request of step 4 is a bond of the input between survivors, not both named *)
+    assert (HW4in : forall n m b, In (n, m, b) W4 ->
+                      exists b0, bond_of g n m = Some b0 /\ b = plain b0 /\ ~ In n del /\ ~ In m del /\ ~ (In n P /\ In m P) /\
+                                 exists b1, bond_of g m n = Some b1 /\ b_ord b0 = b_ord b1).
+    { intros n m b Hin. apply keep_reqs_In in Hin. destruct Hin as (bs & b0 & Hnbs & Hmb & -> & Hn & Hm & Hb).
+      destruct (Hadj n bs Hnbs) as (Hndbs & Hall). destruct (Hall m b0 Hmb) as (_ & _ & b1 & Hb1 & Hord).
+      exists b0. split.
+      - unfold bond_of, nbrs. rewrite (In_NoDup_zget (m_adj g) n bs); [|rewrite Hkeys; exact Hnd|exact Hnbs].
+        apply In_NoDup_zget; assumption.
+      - repeat (split; [assumption || reflexivity|]). exists b1. split; assumption. }
+    assert (Hspec4 : forall x y, get2 adj4 x y = if targets W4 x y then Some (v x y) else get2 adj3 x y).
+    { apply (links_spec v W4 adj3 adj4); [| |exact HW4].
+      - intros n m b Hin. destruct (HW4in n m b Hin) as (b0 & Hb0 & -> & _ & _ & _ & b1 & Hb1 & Hord).
+        unfold v. rewrite Hb0, Hb1. unfold plain. rewrite Hord. split; reflexivity.
+      - intros n m b b' Hin Hg. destruct (HW4in n m b Hin) as (_ & _ & _ & _ & _ & Hb & _).
+        exfalso. apply Hb. destruct (A1 m n b' Hg). split; assumption. }
+    assert (Hbond : forall x y, bond_of new x y = get2 adj4 x y) by (intros; subst new; reflexivity).
+    assert (Hatom : forall x, atom_of new x = zget atoms3 x) by (intros; subst new; reflexivity).
+    split; [|split; [|split; [|split; [|split]]]].
+    - intros x a Ha Hnn Hd. rewrite Hatom.
+      pose proof (keep_atoms_value P del (m_atoms g) (p_atoms s1, adj2) x a Hnd (zget_Some_In _ _ _ Ha)) as Hv.
+      rewrite E3 in Hv. cbn [fst] in Hv. apply Hv; [rewrite HP; exact Hnn|exact Hd].
+    - intros x y Hx Hy Hdx Hdy Hnn. rewrite Hbond, Hspec4.
+      assert (HnP : ~ (In x P /\ In y P)) by (rewrite !HP; exact Hnn).
+      destruct (bond_of g x y) as [b0|] eqn:Eb.
+      + assert (Hin : In (x, y, plain b0) W4).
+        { apply keep_reqs_In. unfold bond_of, nbrs in Eb. destruct (zget (m_adj g) x) as [bs|] eqn:Ebs; [|discriminate].
+          exists bs, b0. split; [eapply zget_Some_In; exact Ebs|]. split; [eapply zget_Some_In; exact Eb|]. auto. }
+        assert (Et : targets W4 x y = true) by (apply targets_In; eexists; exact Hin).
+        rewrite Et. unfold v. rewrite Eb. reflexivity.
+      + destruct (targets W4 x y) eqn:Et.
+        * apply targets_In in Et. destruct Et as [b Hin]. destruct (HW4in _ _ _ Hin) as (b0 & Hb0 & _). congruence.
+        * cbn. destruct (get2 adj3 x y) as [b|] eqn:Eg; [|reflexivity]. exfalso. apply HnP. eapply A1. exact Eg.
+    - intros x y b Hb Hnn. rewrite Hbond, Hspec4 in Hb.
+      assert (HnP : ~ (In x P /\ In y P)) by (rewrite !HP; exact Hnn).
+      destruct (targets W4 x y) eqn:Et.
+      + apply targets_In in Et. destruct Et as [b' Hin]. destruct (HW4in _ _ _ Hin) as (b0 & Hb0 & _ & Hdx & Hdy & _).
+        exists b0. inversion Hb; subst b. unfold v. rewrite Hb0. auto.
+      + exfalso. apply HnP. eapply A1. exact Hb.
+    - intros x. unfold ids at 1. subst new. cbn [m_atoms]. rewrite K3. fold P. fold (ids g). rewrite (HP x).
+      split; [intros [Hq|(Hq1 & Hq2 & Hq3)]; [left; exact Hq|right; split; assumption]|]. intros [Hq|(Hq1 & Hq2)]; [left; exact Hq|].
+      destruct (in_dec Z.eq_dec x P) as [Hi|Hi]; [left; apply HP; exact Hi|right].
+      split; [exact Hq1|]. split; [rewrite <- (HP x); exact Hi|exact Hq2].
+    - unfold ids. subst new. cbn [m_atoms]. apply K2. exact Hnd1.
+    - unfold ids. subst new. cbn [m_atoms m_adj]. rewrite (proj1 (links_keys _ _ _ HW4)). exact A3.
+  Qed.
+End PatcherTheorems.
+
+(* ---------- new atom numbers are fresh and distinct ---------- *)
+Lemma patch_atoms_new_distinct g : forall l s s', fold_res (patch_atom g) l s = Ok s' -> 0 <= p_max s ->
+  forall n1 n2 m, truthy_get (p_map s) n1 = None -> truthy_get (p_map s) n2 = None ->
+                  truthy_get (p_map s') n1 = Some m -> truthy_get (p_map s') n2 = Some m -> n1 = n2.
+Proof.
+  induction l as [|[n ra] l IH]; intros s s' H Hmax n1 n2 m N1 N2 S1 S2; cbn [fold_res] in H.
+  - inversion H; subst. congruence.
+  - destruct (patch_atom g s (n, ra)) as [s1|] eqn:E1; [|discriminate].
+    destruct (patch_atom_ok _ _ _ _ _ E1 Hmax) as (m0 & a & _ & _ & Hn1 & Hcase).
+    destruct Hcase as [(_ & Emap & Emax & _)|(Hnone & Emap & Em0 & Emax & _)].
+    + assert (Hmax1 : 0 <= p_max s1) by lia.
+      apply (IH s1 s' H Hmax1 n1 n2 m); try assumption; rewrite Emap; assumption.
+    + assert (Hmax1 : 0 <= p_max s1) by lia.
+      destruct (patch_atoms_spec g l s1 s' H Hmax1) as (_ & Hext & Hnew & _).
+      assert (Hother : forall k, k <> n -> truthy_get (p_map s1) k = truthy_get (p_map s) k).
+      { intros k Hk. rewrite Emap, truthy_get_zset by lia. destruct (Z.eqb_spec k n); [contradiction|reflexivity]. }
+      assert (Hhead : forall k, k <> n -> truthy_get (p_map s) k = None -> truthy_get (p_map s') k = Some m0 -> False).
+      { intros k Hk Nk Sk. destruct (Hnew k m0 Sk) as [Hc|(_ & Hc)]; [rewrite Hother in Hc by exact Hk; congruence|lia]. }
+      pose proof (Hext n m0 Hn1) as Sn.
+      destruct (Z.eq_dec n1 n) as [->|D1], (Z.eq_dec n2 n) as [->|D2]; [reflexivity| | |].
+      * exfalso. rewrite Sn in S1. inversion S1; subst m. eapply Hhead; eassumption.
+      * exfalso. rewrite Sn in S2. inversion S2; subst m. eapply Hhead; eassumption.
+      * apply (IH s1 s' H Hmax1 n1 n2 m); try assumption; rewrite Hother; assumption.
+Qed.
+
+Theorem patcher_fresh : forall g mapping tpl del new mp',
+  patcher g mapping tpl del = Ok (new, mp') -> (forall x, In x (ids g) -> 0 < x) ->
+  (* the match is extended, never changed *)
+  (forall n m, truthy_get mapping n = Some m -> truthy_get mp' n = Some m) /\
+  (* every replacement atom has an image; an image that is not from the match is a number greater than every number in use *)
+  (forall n, In n (keys (t_atoms tpl)) -> exists m, truthy_get mp' n = Some m) /\
+  (forall n m, truthy_get mp' n = Some m -> truthy_get mapping n = Some m \/
+               (In n (keys (t_atoms tpl)) /\ forall x, In x (ids g) -> x < m)) /\
+  (* different new atoms get different numbers *)
+  (forall n1 n2 m, truthy_get mapping n1 = None -> truthy_get mapping n2 = None ->
+                   truthy_get mp' n1 = Some m -> truthy_get mp' n2 = Some m -> n1 = n2).
+Proof.
+  intros g mapping tpl del new mp' Hrun Hpos.
+  destruct (patcher_anatomy _ _ _ _ _ _ Hrun Hpos)
+    as (mx & s1 & adj2 & W2 & atoms3 & adj3 & adj4 & Emx & Hmx & E1 & Emp & _).
+  subst mp'.
+  destruct (patch_atoms_spec g _ _ _ E1) as (_ & Hext & Hnew & _); [cbn; lia|]. cbn [p_map p_max] in *.
+  split; [exact Hext|]. split; [|split].
+  - intros n Hn. eapply (patch_atoms_mapped g _ _ _ E1); [cbn; lia|exact Hn].
+  - intros n m Hg. destruct (Hnew n m Hg) as [?|(Hin & Hr)]; [left; assumption|]. right. split; [exact Hin|].
+    intros x Hx. pose proof (proj2 (zmax_list_spec _ _ Emx) x Hx). lia.
+  - intros n1 n2 m. apply (patch_atoms_new_distinct g _ _ _ E1). cbn. lia.
+Qed.
+
+(* ---------- replacement atoms get the requested values ---------- *)
+Lemma patch_atoms_inj g T : forall l s s', fold_res (patch_atom g) l s = Ok s' -> 0 <= p_max s ->
+  incl (keys l) T -> inj_on T (p_map s) (p_max s) -> inj_on T (p_map s') (p_max s').
+Proof.
+  induction l as [|[n0 ra0] l IH]; intros s s' H Hmax Hincl Hinj; cbn [fold_res] in H.
+  - inversion H; subst. exact Hinj.
+  - destruct (patch_atom g s (n0, ra0)) as [s1|] eqn:E1; [|discriminate].
+    destruct (patch_atom_ok _ _ _ _ _ E1 Hmax) as (m & a & _ & _ & _ & Hcase).
+    cbn [keys map fst] in Hincl.
+    apply (IH s1 s' H).
+    + destruct Hcase as [(_ & _ & -> & _)|(_ & _ & -> & -> & _)]; lia.
+    + intros y Hy. apply Hincl. right. exact Hy.
+    + destruct Hinj as [Hi Hb]. destruct Hcase as [(_ & -> & -> & _)|(Hnone & -> & Em & -> & _)]; [split; assumption|].
+      split.
+      * intros n1 n2 m' H1 H2. rewrite !truthy_get_zset by lia.
+        destruct (Z.eqb_spec n1 n0), (Z.eqb_spec n2 n0); subst; try congruence.
+        -- intros E1' E2'. inversion E1'; subst m'. specialize (Hb n2 _ H2 E2'). lia.
+        -- intros E1' E2'. inversion E2'; subst m'. specialize (Hb n1 _ H1 E1'). lia.
+        -- apply Hi; assumption.
+      * intros n' m' Hn'. rewrite truthy_get_zset by lia. destruct (n' =? n0).
+        -- intros E. inversion E. lia.
+        -- intros E. specialize (Hb n' m' Hn' E). lia.
+Qed.
+
+Section NamedAtoms.
+  Variables (g : mol) (mapping : list (Z * Z)) (tpl : template) (del : list Z) (new : mol) (mp' : list (Z * Z)).
+  Hypothesis Hrun : patcher g mapping tpl del = Ok (new, mp').
+  Hypothesis Hpos : forall x, In x (ids g) -> 0 < x.
+  Hypothesis Hnd : NoDup (keys (t_atoms tpl)).
+  (* the match is injective on the atoms of the replacement and maps them to atoms of the structure *)
+  Hypothesis Hinj : forall n1 n2 m, In n1 (keys (t_atoms tpl)) -> In n2 (keys (t_atoms tpl)) ->
+                                    truthy_get mapping n1 = Some m -> truthy_get mapping n2 = Some m -> n1 = n2.
+  Hypothesis Himg : forall n m, In n (keys (t_atoms tpl)) -> truthy_get mapping n = Some m -> In m (ids g).
+
+  Lemma initial_inj mx : zmax_list (ids g) = Some mx -> inj_on (keys (t_atoms tpl)) mapping mx.
+  Proof.
+    intros Emx. split; [exact Hinj|]. intros n m Hn Hg. apply (zmax_list_spec _ _ Emx). eapply Himg; eassumption.
+  Qed.
+
+  Theorem patcher_named_atoms : forall n ra, In (n, ra) (t_atoms tpl) ->
+    exists m, truthy_get mp' n = Some m /\
+      ((truthy_get mapping n = Some m /\ exists sa, atom_of g m = Some sa /\ atom_of new m = Some (built ra sa false)) \/
+       (truthy_get mapping n = None /\ (forall x, In x (ids g) -> x < m) /\ atom_of new m = Some (built ra dummy_atom true))).
+  Proof.
+    intros n ra Hin.
+    destruct (patcher_anatomy _ _ _ _ _ _ Hrun Hpos)
+      as (mx & s1 & adj2 & W2 & atoms3 & adj3 & adj4 & Emx & Hmx & E1 & Emp & _ & _ & E3 & _ & Enew & _).
+    destruct (patch_atoms_values g (keys (t_atoms tpl)) _ _ _ E1) with (n := n) (ra := ra) as (m & Hm & Hc);
+      [cbn; lia|exact Hnd|apply incl_refl|cbn; apply initial_inj; exact Emx|exact Hin|].
+    cbn [p_map p_max] in *. subst mp'. exists m. split; [exact Hm|].
+    assert (Hatom : forall a, zget (p_atoms s1) m = Some a -> atom_of new m = Some a).
+    { intros a Ha. subst new. unfold atom_of. cbn [m_atoms].
+      destruct (keep_atoms_spec (keys (p_atoms s1)) del (m_atoms g) (p_atoms s1, adj2)) as (_ & _ & _ & K4 & _).
+      rewrite E3 in K4. cbn [fst snd] in K4.
+      rewrite (proj1 (K4 m (or_introl (zget_Some_key _ _ _ Ha)))). exact Ha. }
+    destruct Hc as [(Hg & sa & Hsa & Hz)|(Hnone & Hlt & Hz)].
+    - left. split; [exact Hg|]. exists sa. split; [exact Hsa|apply Hatom; exact Hz].
+    - right. split; [exact Hnone|]. split; [|apply Hatom; exact Hz].
+      intros x Hx. pose proof (proj2 (zmax_list_spec _ _ Emx) x Hx). lia.
+  Qed.
+End NamedAtoms.
+
+(* ---------- replacement bonds get the requested order, and only they join replacement atoms ---------- *)
+Lemma wf_template_facts t : wf_template t = true ->
+  keys (t_bonds t) = keys (t_atoms t) /\ NoDup (keys (t_atoms t)) /\
+  forall n bs, In (n, bs) (t_bonds t) ->
+    NoDup (keys bs) /\
+    forall m b, In (m, b) bs -> m <> n /\ In m (keys (t_atoms t)) /\
+                                exists b', get2 (t_bonds t) m n = Some b' /\ b_ord b = b_ord b'.
+Proof.
+  unfold wf_template. intros H. apply andb_prop in H. destruct H as [H H3]. apply andb_prop in H. destruct H as [H1 H2].
+  apply list_eqb_Z_eq' in H1. split; [symmetry; exact H1|]. split; [apply nodup_z_NoDup; exact H2|].
+  intros n bs Hin. rewrite forallb_forall in H3. specialize (H3 (n, bs) Hin). cbn [fst snd] in H3.
+  apply andb_prop in H3. destruct H3 as [Hnd Hall]. split; [apply nodup_z_NoDup; exact Hnd|].
+  intros m b Hmb. rewrite forallb_forall in Hall. specialize (Hall (m, b) Hmb). cbn [fst snd] in Hall.
+  apply andb_prop in Hall. destruct Hall as [Hall Hb]. apply andb_prop in Hall. destruct Hall as [Hne Hm].
+  split; [apply Z.eqb_neq; apply negb_true_iff; exact Hne|]. split; [apply zmem_In; exact Hm|].
+  unfold get2. destruct (zget (t_bonds t) m) as [lm|]; [|discriminate].
+  destruct (zget lm n) as [b'|]; [|discriminate]. exists b'. split; [reflexivity|apply Z.eqb_eq; exact Hb].
+Qed.
+
+Definition lookup_req (W : list req) (x y : Z) : option bond :=
+  option_map snd (find (fun w => (x =? fst (fst w)) && (y =? snd (fst w))) W).
+
+Lemma lookup_req_In W x y b : In (x, y, b) W -> exists b', lookup_req W x y = Some b' /\ In (x, y, b') W.
+Proof.
+  unfold lookup_req. intros Hin.
+  destruct (find (fun w => (x =? fst (fst w)) && (y =? snd (fst w))) W) as [[[x' y'] b']|] eqn:E.
+  - apply find_some in E. destruct E as [Hin' Hc]. cbn in Hc. apply andb_prop in Hc. destruct Hc as [H1 H2].
+    apply Z.eqb_eq in H1. apply Z.eqb_eq in H2. subst. exists b'. split; [reflexivity|exact Hin'].
+  - exfalso. pose proof (find_none _ _ E _ Hin) as Hc. cbn in Hc. rewrite !Z.eqb_refl in Hc. discriminate.
+Qed.
+
+Section NamedBonds.
+  Variables (g : mol) (mapping : list (Z * Z)) (tpl : template) (del : list Z) (new : mol) (mp' : list (Z * Z)).
+  Hypothesis Hrun : patcher g mapping tpl del = Ok (new, mp').
+  Hypothesis Hpos : forall x, In x (ids g) -> 0 < x.
+  Hypothesis Hwt : wf_template tpl = true.
+  Hypothesis Hinj : forall n1 n2 m, In n1 (keys (t_atoms tpl)) -> In n2 (keys (t_atoms tpl)) ->
+                                    truthy_get mapping n1 = Some m -> truthy_get mapping n2 = Some m -> n1 = n2.
+  Hypothesis Himg : forall n m, In n (keys (t_atoms tpl)) -> truthy_get mapping n = Some m -> In m (ids g).
+
+  Theorem patcher_named_bonds :
+    (forall n0 m0 rb x y, get2 (t_bonds tpl) n0 m0 = Some rb -> truthy_get mp' n0 = Some x -> truthy_get mp' m0 = Some y ->
+                          bond_of new x y = Some (plain rb)) /\
+    (forall x y b, named tpl mp' x -> named tpl mp' y -> bond_of new x y = Some b ->
+                   exists n0 m0 rb, get2 (t_bonds tpl) n0 m0 = Some rb /\ truthy_get mp' n0 = Some x /\
+                                    truthy_get mp' m0 = Some y /\ b = plain rb).
+  Proof.
+    destruct (patcher_anatomy _ _ _ _ _ _ Hrun Hpos)
+      as (mx & s1 & adj2 & W2 & atoms3 & adj3 & adj4 & Emx & Hmx & E1 & Emp & EW2 & HW2 & E3 & HW4 & Enew & HP & Hk1 & Hnd1 & Hnil).
+    destruct (wf_template_facts tpl Hwt) as (Hkb & HndT & Htb).
+    set (T := keys (t_atoms tpl)) in *.
+    assert (Hinj' : inj_on T mp' (p_max s1)).
+    { subst mp'. apply (patch_atoms_inj g T _ _ _ E1); [cbn; lia|apply incl_refl|].
+      cbn. apply (initial_inj g mapping tpl Hinj Himg mx Emx). }
+    assert (Hmapped : forall n, In n T -> exists m, truthy_get mp' n = Some m).
+    { subst mp'. intros n Hn. eapply (patch_atoms_mapped g _ _ _ E1); [cbn; lia|exact Hn]. }
+    assert (Hz2t : forall n x, In n T -> zget mp' n = Some x -> truthy_get mp' n = Some x).
+    { intros n x Hn Hz. destruct (Hmapped n Hn) as [m Hm]. destruct (truthy_get_zget _ _ _ Hm) as [Hz' _]. congruence. }
+    (* bonds of the replacement as pairs of entries *)
+    assert (Hget2 : forall n0 m0 rb, get2 (t_bonds tpl) n0 m0 = Some rb <->
+                                     exists bs, In (n0, bs) (t_bonds tpl) /\ In (m0, rb) bs).
+    { intros n0 m0 rb. unfold get2. split.
+      - destruct (zget (t_bonds tpl) n0) as [bs|] eqn:Ebs; [|cbn; discriminate]. intros Hz.
+        exists bs. split; eapply zget_Some_In; eassumption.
+      - intros (bs & Hin & Hmb). rewrite (In_NoDup_zget _ _ _ ltac:(rewrite Hkb; exact HndT) Hin).
+        apply In_NoDup_zget; [apply (Htb n0 bs Hin)|exact Hmb]. }
+    assert (HW2in : forall x y b, In (x, y, b) W2 <->
+                      exists n0 m0 rb, get2 (t_bonds tpl) n0 m0 = Some rb /\ truthy_get mp' n0 = Some x /\
+                                       truthy_get mp' m0 = Some y /\ b = plain rb).
+    { intros x y b. rewrite (tpl_reqs_In _ _ _ x y b EW2). split.
+      - intros (n0 & bs & m0 & rb & Hin & Hmb & Hx & Hy & ->). exists n0, m0, rb.
+        split; [apply Hget2; exists bs; split; assumption|].
+        assert (Hn0 : In n0 T) by (rewrite <- Hkb; unfold keys; apply in_map_iff; exists (n0, bs); split; [reflexivity|exact Hin]).
+        assert (Hm0 : In m0 T) by (apply (Htb n0 bs Hin) in Hmb; apply Hmb).
+        split; [apply Hz2t; assumption|]. split; [apply Hz2t; assumption|reflexivity].
+      - intros (n0 & m0 & rb & Hg & Hx & Hy & ->). apply Hget2 in Hg. destruct Hg as (bs & Hin & Hmb).
+        exists n0, bs, m0, rb. repeat (split; [assumption|]).
+        split; [apply (truthy_get_zget _ _ _ Hx)|]. split; [apply (truthy_get_zget _ _ _ Hy)|reflexivity]. }
+    assert (HinT : forall n0 m0 rb, get2 (t_bonds tpl) n0 m0 = Some rb -> In n0 T /\ In m0 T).
+    { intros n0 m0 rb Hg. apply Hget2 in Hg. destruct Hg as (bs & Hin & Hmb). split.
+      - rewrite <- Hkb. unfold keys. apply in_map_iff. exists (n0, bs). split; [reflexivity|exact Hin].
+      - apply (Htb n0 bs Hin) in Hmb. apply Hmb. }
+    assert (Huniq : forall x y b1 b2, In (x, y, b1) W2 -> In (x, y, b2) W2 -> b1 = b2).
+    { intros x y b1 b2 H1 H2. apply HW2in in H1. apply HW2in in H2.
+      destruct H1 as (n1 & m1 & r1 & G1 & X1 & Y1 & ->). destruct H2 as (n2 & m2 & r2 & G2 & X2 & Y2 & ->).
+      destruct (HinT _ _ _ G1) as [Tn1 Tm1]. destruct (HinT _ _ _ G2) as [Tn2 Tm2].
+      assert (n1 = n2) by (eapply (proj1 Hinj'); eassumption).
+      assert (m1 = m2) by (eapply (proj1 Hinj'); eassumption). subst. congruence. }
+    set (v2 := fun x y => match lookup_req W2 x y with Some b => b | None => mkBond 0 None end).
+    assert (Hv2 : forall x y b, In (x, y, b) W2 -> v2 x y = b).
+    { intros x y b Hin. unfold v2. destruct (lookup_req_In _ _ _ _ Hin) as (b' & -> & Hin'). eapply Huniq; eassumption. }
+    assert (Hspec2 : forall x y, get2 adj2 x y = if targets W2 x y then Some (v2 x y) else None).
+    { intros x y. rewrite (links_spec v2 W2 (p_adj s1) adj2); [rewrite Hnil; reflexivity| | |exact HW2].
+      - intros n m b Hin. split; [symmetry; apply Hv2; exact Hin|].
+        rewrite (Hv2 _ _ _ Hin). apply HW2in in Hin. destruct Hin as (n0 & m0 & rb & Hg & Hx & Hy & ->).
+        destruct (proj1 (Hget2 _ _ _) Hg) as (bs & Hin & Hmb).
+        destruct (proj2 (Htb n0 bs Hin) m0 rb Hmb) as (_ & _ & rb' & Hg' & Hord).
+        rewrite (Hv2 m n (plain rb')); [unfold plain; rewrite Hord; reflexivity|].
+        apply HW2in. exists m0, n0, rb'. repeat (split; [assumption|]). reflexivity.
+      - intros n m b b' _ Hg. rewrite Hnil in Hg. discriminate. }
+    destruct (anatomy_adj3 g del s1 adj2 W2 atoms3 adj3 HW2 E3 Hk1 Hnil) as (A1 & A2 & A3).
+    assert (Hnew2 : forall x y, In x (keys (p_atoms s1)) -> In y (keys (p_atoms s1)) -> bond_of new x y = get2 adj2 x y).
+    { intros x y Hx Hy. subst new. rewrite bond_of_get2.
+      rewrite (proj2 (proj2 (links_keys _ _ _ HW4)) x y); [apply A2; exact Hx|].
+      destruct (targets _ x y) eqn:Et; [|reflexivity]. exfalso.
+      apply targets_In in Et. destruct Et as [b Hin]. apply keep_reqs_In in Hin.
+      destruct Hin as (_ & _ & _ & _ & _ & _ & _ & Hb). apply Hb. split; assumption. }
+    split.
+    - intros n0 m0 rb x y Hg Hx Hy. destruct (HinT _ _ _ Hg) as [Tn Tm].
+      rewrite Hnew2; [|apply HP; exists n0; split; assumption|apply HP; exists m0; split; assumption].
+      assert (Hin : In (x, y, plain rb) W2) by (apply HW2in; exists n0, m0, rb; auto).
+      rewrite Hspec2. assert (Et : targets W2 x y = true) by (apply targets_In; eexists; exact Hin).
+      rewrite Et, (Hv2 _ _ _ Hin). reflexivity.
+    - intros x y b Hx Hy Hb. rewrite Hnew2, Hspec2 in Hb by (apply HP; assumption).
+      destruct (targets W2 x y) eqn:Et; [|discriminate]. apply targets_In in Et. destruct Et as [b' Hin].
+      inversion Hb; subst b. rewrite (Hv2 _ _ _ Hin). apply HW2in. exact Hin.
+  Qed.
+End NamedBonds.
+
+(* ---------- a template whose replacement equals its pattern returns the input ---------- *)
+Definition same_request (ra : ratom) (sa : atom) : Prop :=
+  match ra with
+  | RAny chg rad => chg = a_chg sa /\ rad = a_rad sa
+  | RElem num iso chg rad _ => num = a_num sa /\ iso = a_iso sa /\ chg = a_chg sa /\ rad = a_rad sa
+  end.
+Definition core (a : atom) : Z * option Z * Z * bool := (a_num a, a_iso a, a_chg a, a_rad a).
+
+Lemma named_dec tpl mp' x : named tpl mp' x \/ ~ named tpl mp' x.
+Proof.
+  unfold named. induction (keys (t_atoms tpl)) as [|n l IH].
+  - right. intros (n & [] & _).
+  - destruct IH as [(n' & Hin & Hg)|Hno]; [left; exists n'; split; [right; exact Hin|exact Hg]|].
+    destruct (truthy_get mp' n) as [m|] eqn:E.
+    + destruct (Z.eq_dec m x) as [->|Hne]; [left; exists n; split; [left; reflexivity|exact E]|].
+      right. intros (n' & [<-|Hin] & Hg); [congruence|]. apply Hno. exists n'. split; assumption.
+    + right. intros (n' & [<-|Hin] & Hg); [congruence|]. apply Hno. exists n'. split; assumption.
+Qed.
+
+Lemma bond_of_ids g x y b : wf_mol g = true -> bond_of g x y = Some b -> In x (ids g) /\ In y (ids g).
+Proof.
+  intros Hwf Hb. destruct (wf_mol_facts g Hwf) as (_ & Hkeys & Hadj).
+  unfold bond_of, nbrs in Hb. destruct (zget (m_adj g) x) as [bs|] eqn:E; [|discriminate].
+  split; [rewrite <- Hkeys; eapply zget_Some_key; exact E|].
+  apply (proj2 (Hadj x bs (zget_Some_In _ _ _ E)) y b). eapply zget_Some_In. exact Hb.
+Qed.
+
+Theorem identity_template : forall g mapping tpl new mp',
+  patcher g mapping tpl [] = Ok (new, mp') ->
+  wf_mol g = true -> (forall x, In x (ids g) -> 0 < x) -> wf_template tpl = true ->
+  (forall n1 n2 m, In n1 (keys (t_atoms tpl)) -> In n2 (keys (t_atoms tpl)) ->
+                   truthy_get mapping n1 = Some m -> truthy_get mapping n2 = Some m -> n1 = n2) ->
+  (* every replacement atom is matched and requests what the matched atom already has *)
+  (forall n ra, In (n, ra) (t_atoms tpl) ->
+                exists m sa, truthy_get mapping n = Some m /\ atom_of g m = Some sa /\ same_request ra sa) ->
+  (* the replacement has exactly the bonds of the matched part, with the same orders *)
+  (forall n0 m0 x y, In n0 (keys (t_atoms tpl)) -> In m0 (keys (t_atoms tpl)) ->
+                     truthy_get mapping n0 = Some x -> truthy_get mapping m0 = Some y ->
+                     option_map b_ord (get2 (t_bonds tpl) n0 m0) = option_map b_ord (bond_of g x y)) ->
+  (forall n, truthy_get mp' n = truthy_get mapping n) /\
+  (forall x, option_map core (atom_of new x) = option_map core (atom_of g x)) /\
+  (forall x, ~ named tpl mp' x -> atom_of new x = option_map plain_atom (atom_of g x)) /\
+  (forall x y, option_map b_ord (bond_of new x y) = option_map b_ord (bond_of g x y)).
+Proof.
+  intros g mapping tpl new mp' Hrun Hwf Hpos Hwt Hinj Hsame Hbonds.
+  set (T := keys (t_atoms tpl)) in *.
+  assert (Hra : forall n, In n T -> exists ra, In (n, ra) (t_atoms tpl)).
+  { intros n Hn. unfold T, keys in Hn. apply in_map_iff in Hn. destruct Hn as ([n' ra] & <- & Hin). exists ra. exact Hin. }
+  assert (Hall : forall n, In n T -> exists m, truthy_get mapping n = Some m /\ In m (ids g)).
+  { intros n Hn. destruct (Hra n Hn) as [ra Hin]. destruct (Hsame n ra Hin) as (m & sa & Hg & Ha & _).
+    exists m. split; [exact Hg|]. eapply zget_Some_key. exact Ha. }
+  assert (Himg : forall n m, In n T -> truthy_get mapping n = Some m -> In m (ids g)).
+  { intros n m Hn Hg. destruct (Hall n Hn) as (m' & Hg' & Hm'). congruence. }
+  destruct (patcher_fresh _ _ _ _ _ _ Hrun Hpos) as (Hext & Hmapped & Hnew & _).
+  assert (Hmp : forall n, truthy_get mp' n = truthy_get mapping n).
+  { intros n. destruct (truthy_get mp' n) as [m|] eqn:E.
+    - destruct (Hnew n m E) as [Hg|(Hn & _)]; [symmetry; exact Hg|].
+      destruct (Hall n Hn) as (m' & Hg' & _). rewrite (Hext _ _ Hg') in E. congruence.
+    - destruct (truthy_get mapping n) as [m|] eqn:E'; [|reflexivity]. rewrite (Hext _ _ E') in E. discriminate. }
+  destruct (patcher_frame _ _ _ _ _ _ Hrun Hwf Hpos) as (F1 & F2 & F3 & F4 & _).
+  destruct (wf_template_facts tpl Hwt) as (_ & HndT & _).
+  destruct (patcher_named_bonds _ _ _ _ _ _ Hrun Hpos Hwt Hinj Himg) as (B1 & B2).
+  split; [exact Hmp|]. split; [|split].
+  - intros x. destruct (named_dec tpl mp' x) as [(n & Hn & Hg)|Hno].
+    + destruct (Hra n Hn) as [ra Hin].
+      destruct (patcher_named_atoms _ _ _ _ _ _ Hrun Hpos HndT Hinj Himg n ra Hin) as (m & Hm & Hc).
+      assert (m = x) by congruence. subst m.
+      destruct Hc as [(Hgm & sa & Hsa & Hnewa)|(Hnone & _)].
+      * rewrite Hnewa, Hsa. destruct (Hsame n ra Hin) as (m' & sa' & Hg' & Ha' & Hreq).
+        assert (m' = x) by congruence. subst m'. assert (sa' = sa) by congruence. subst sa'.
+        cbn [option_map]. f_equal. unfold core. destruct ra as [chg rad|num iso chg rad h]; cbn in *.
+        -- destruct Hreq as [-> ->]. reflexivity.
+        -- destruct Hreq as (-> & -> & -> & ->). reflexivity.
+      * destruct (Hall n Hn) as (m' & Hg' & _). congruence.
+    + destruct (atom_of g x) as [a|] eqn:Ea.
+      * rewrite (F1 x a Ea Hno (fun H => H)). reflexivity.
+      * destruct (atom_of new x) as [a'|] eqn:Ea'; [|reflexivity]. exfalso.
+        assert (Hin : In x (ids new)) by (eapply zget_Some_key; exact Ea').
+        apply F4 in Hin. destruct Hin as [Hc|[Hc _]]; [contradiction|].
+        apply zget_None_key in Ea. contradiction.
+  - intros x Hno. destruct (atom_of g x) as [a|] eqn:Ea.
+    + rewrite (F1 x a Ea Hno (fun H => H)). reflexivity.
+    + destruct (atom_of new x) as [a'|] eqn:Ea'; [|reflexivity]. exfalso.
+      assert (Hin : In x (ids new)) by (eapply zget_Some_key; exact Ea').
+      apply F4 in Hin. destruct Hin as [Hc|[Hc _]]; [contradiction|].
+      apply zget_None_key in Ea. contradiction.
+  - intros x y.
+    destruct (named_dec tpl mp' x) as [Hx|Hx], (named_dec tpl mp' y) as [Hy|Hy].
+    + destruct Hx as (n0 & Hn0 & Hgx). destruct Hy as (m0 & Hm0 & Hgy).
+      pose proof (Hbonds n0 m0 x y Hn0 Hm0) as Hb. rewrite <- !Hmp in Hb. specialize (Hb Hgx Hgy).
+      destruct (get2 (t_bonds tpl) n0 m0) as [rb|] eqn:Eg.
+      * rewrite (B1 n0 m0 rb x y Eg Hgx Hgy). rewrite <- Hb. reflexivity.
+      * rewrite <- Hb. destruct (bond_of new x y) as [b|] eqn:Eb; [|reflexivity]. exfalso.
+        destruct (B2 x y b (ex_intro _ n0 (conj Hn0 Hgx)) (ex_intro _ m0 (conj Hm0 Hgy)) Eb) as (n1 & m1 & rb & Eg1 & Hx1 & Hy1 & _).
+        assert (HT1 : In n1 T /\ In m1 T).
+        { unfold get2 in Eg1. destruct (zget (t_bonds tpl) n1) as [bs|] eqn:Ebs; [|discriminate].
+          destruct (wf_template_facts tpl Hwt) as (Hkb & _ & Htb). split.
+          - unfold T. rewrite <- Hkb. eapply zget_Some_key. exact Ebs.
+          - apply (proj2 (Htb n1 bs (zget_Some_In _ _ _ Ebs)) m1 rb). eapply zget_Some_In. exact Eg1. }
+        rewrite Hmp in Hgx, Hgy, Hx1, Hy1.
+        assert (n1 = n0) by (eapply Hinj; [apply HT1|exact Hn0|exact Hx1|exact Hgx]).
+        assert (m1 = m0) by (eapply Hinj; [apply HT1|exact Hm0|exact Hy1|exact Hgy]). subst. congruence.
+    + (* y is not named *)
+      destruct (bond_of new x y) as [b|] eqn:Eb.
+      * destruct (F3 x y b Eb (fun H => Hy (proj2 H))) as (b0 & Hb0 & -> & _). rewrite Hb0. reflexivity.
+      * destruct (bond_of g x y) as [b0|] eqn:Eb0; [|reflexivity]. exfalso.
+        destruct (bond_of_ids g x y b0 Hwf Eb0) as [Ix Iy].
+        rewrite (F2 x y Ix Iy (fun H => H) (fun H => H) (fun H => Hy (proj2 H))), Eb0 in Eb. discriminate.
+    + destruct (bond_of new x y) as [b|] eqn:Eb.
+      * destruct (F3 x y b Eb (fun H => Hx (proj1 H))) as (b0 & Hb0 & -> & _). rewrite Hb0. reflexivity.
+      * destruct (bond_of g x y) as [b0|] eqn:Eb0; [|reflexivity]. exfalso.
+        destruct (bond_of_ids g x y b0 Hwf Eb0) as [Ix Iy].
+        rewrite (F2 x y Ix Iy (fun H => H) (fun H => H) (fun H => Hx (proj1 H))), Eb0 in Eb. discriminate.
+    + destruct (bond_of new x y) as [b|] eqn:Eb.
+      * destruct (F3 x y b Eb (fun H => Hx (proj1 H))) as (b0 & Hb0 & -> & _). rewrite Hb0. reflexivity.
+      * destruct (bond_of g x y) as [b0|] eqn:Eb0; [|reflexivity]. exfalso.
+        destruct (bond_of_ids g x y b0 Hwf Eb0) as [Ix Iy].
+        rewrite (F2 x y Ix Iy (fun H => H) (fun H => H) (fun H => Hx (proj1 H))), Eb0 in Eb. discriminate.
+Qed.
+
+(* ---------- _patcher with the repaired _get_deleted: the atoms of the product ---------- *)
+Theorem template_application_atoms : forall g mapping to_del tpl new mp',
+  patcher_with get_deleted_fixed g mapping to_del tpl = Ok (new, mp') ->
+  wf_mol g = true -> (forall x, In x (ids g) -> 0 < x) ->
+  (forall p, In p to_del -> exists v, zget mapping p = Some v /\ In v (ids g)) ->
+  forall x, In x (ids new) <->
+            named tpl mp' x \/
+            (In x (ids g) /\ ~ deleted_spec (graph_of g) (image mapping to_del) (kept mapping to_del) x).
+Proof.
+  intros g mapping to_del tpl new mp' Hrun Hwf Hpos Hm x.
+  unfold patcher_with in Hrun.
+  destruct (wf_mol_facts g Hwf) as (_ & Hkeys & _).
+  destruct (get_deleted_fixed_spec_mol g mapping to_del Hwf) as (r & Er & Hspec).
+  { intros p Hp. destruct (Hm p Hp) as (v & Ev & Hv). exists v. split; [exact Ev|]. rewrite Hkeys. exact Hv. }
+  rewrite Er in Hrun.
+  destruct (patcher_frame _ _ _ _ _ _ Hrun Hwf Hpos) as (_ & _ & _ & F4 & _).
+  rewrite F4, Hspec. tauto.
+Qed.
+
+(* ---------- non-vacuity: a concrete run that satisfies every hypothesis used above ---------- *)
+(* ethyl acetate CC(=O)OCC, template [C:1](=[O:2])[O:3][C:4] >> [A:1](=[A:2])[A:3] + new [Na:5] on no bond, match 2,3,4,5 *)
+Definition ex_mol : mol :=
+  mkMol [(1, mkAtom 6 None 0 false (Some 3) None); (2, mkAtom 6 None 0 false (Some 0) None); (3, mkAtom 8 None 0 false (Some 0) None);
+         (4, mkAtom 8 None 0 false (Some 0) None); (5, mkAtom 6 None 0 false (Some 2) None); (6, mkAtom 6 None 0 false (Some 3) None)]
+        [(1, [(2, mkBond 1 None)]); (2, [(1, mkBond 1 None); (3, mkBond 2 None); (4, mkBond 1 None)]); (3, [(2, mkBond 2 None)]);
+         (4, [(2, mkBond 1 None); (5, mkBond 1 None)]); (5, [(4, mkBond 1 None); (6, mkBond 1 None)]); (6, [(5, mkBond 1 None)])].
+Definition ex_tpl : template :=
+  mkTpl [(1, RAny 0 false); (2, RAny 0 false); (3, RAny (-1) false); (5, RElem 11 None 1 false None)]
+        [(1, [(2, mkBond 2 None); (3, mkBond 1 None)]); (2, [(1, mkBond 2 None)]); (3, [(1, mkBond 1 None)]); (5, [])].
+Definition ex_mapping : list (Z * Z) := [(1, 2); (2, 3); (3, 4); (4, 5)].
+
+Example patcher_example :
+  wf_mol ex_mol = true /\ wf_template ex_tpl = true /\ (forall x, In x (ids ex_mol) -> 0 < x) /\
+  exists new mp', patcher_with get_deleted_fixed ex_mol ex_mapping [4] ex_tpl = Ok (new, mp') /\
+                  ids new = [2; 3; 4; 7; 1] /\ mp' = ex_mapping ++ [(5, 7)] /\
+                  bond_of new 2 4 = Some (mkBond 1 None) /\ bond_of new 4 5 = None /\
+                  atom_of new 4 = Some (mkAtom 8 None (-1) false None None).
+Proof.
+  split; [vm_compute; reflexivity|]. split; [vm_compute; reflexivity|]. split.
+  - intros x Hx. vm_compute in Hx. repeat (destruct Hx as [<-|Hx]; [reflexivity|]). destruct Hx.
+  - eexists _, _. split; [vm_compute; reflexivity|]. repeat split; vm_compute; reflexivity.
+Qed.
+
+(* ====================================================================================================
+   fix_mapping_overlap
+   ==================================================================================================== *)
+Fixpoint all_disjoint (l : list (list Z)) : Prop :=
+  match l with
+  | [] => True
+  | a :: r => (forall b, In b r -> forall x, In x a -> ~ In x b) /\ all_disjoint r
+  end.
+
+Lemma all_disjoint_snoc l a :
+  all_disjoint (l ++ [a]) <-> all_disjoint l /\ forall b, In b l -> forall x, In x b -> ~ In x a.
+Proof.
+  induction l as [|c l IH]; cbn [app all_disjoint].
+  - split; [intros _; split; [exact I|intros ? []]|intros _; split; [intros ? []|exact I]].
+  - rewrite IH. split.
+    + intros (H1 & H2 & H3). split; [split; [|exact H2]|].
+      * intros b Hb. apply H1. apply in_or_app. left. exact Hb.
+      * intros b [<-|Hb]; [apply H1; apply in_or_app; right; left; reflexivity|apply H3; exact Hb].
+    + intros ((H1 & H2) & H3). split; [|split; [exact H2|]].
+      * intros b Hb. apply in_app_or in Hb. destruct Hb as [Hb|[<-|[]]]; [apply H1; exact Hb|apply H3; left; reflexivity].
+      * intros b Hb. apply H3. right. exact Hb.
+Qed.
+
+Lemma zip_count_get : forall l s n m, zget (zip_count l s) n = Some m ->
+  In n l /\ s <= m /\ forall n', zget (zip_count l s) n' = Some m -> n' = n.
+Proof.
+  induction l as [|x r IH]; intros s n m; cbn [zip_count zget]; [discriminate|].
+  assert (Hlow : forall k q, zget (zip_count r (s + 1)) k = Some q -> s + 1 <= q) by (intros k q Hq; apply (IH _ _ _ Hq)).
+  destruct (Z.eqb_spec n x) as [->|Hne].
+  - intros H. inversion H; subst m. split; [left; reflexivity|]. split; [lia|].
+    intros n'. destruct (Z.eqb_spec n' x); [auto|]. intros Hq. apply Hlow in Hq. lia.
+  - intros H. destruct (IH _ _ _ H) as (Hin & Hs & Huniq). split; [right; exact Hin|]. split; [lia|].
+    intros n'. destruct (Z.eqb_spec n' x) as [->|Hne']; [|apply Huniq].
+    intros Hq. inversion Hq. lia.
+Qed.
+
+Lemma zip_count_keys l s : keys (zip_count l s) = l.
+Proof. revert s. induction l as [|x r IH]; intros s; cbn; [reflexivity|]. f_equal. apply IH. Qed.
+
+Lemma NoDup_map_inj_on {A B} (f : A -> B) (l : list A) :
+  (forall a b, In a l -> In b l -> f a = f b -> a = b) -> NoDup l -> NoDup (map f l).
+Proof.
+  induction l as [|x l IH]; intros Hinj Hnd; cbn; [constructor|]. inversion Hnd as [|? ? Hx Hnd']; subst. constructor.
+  - intros Hin. apply in_map_iff in Hin. destruct Hin as (y & Hy & Hin).
+    assert (y = x) by (apply Hinj; [right; exact Hin|left; reflexivity|exact Hy]). subst. contradiction.
+  - apply IH; [|exact Hnd']. intros a b Ha Hb. apply Hinj; right; assumption.
+Qed.
+
+Lemma remap_collisions structure atoms a b :
+  NoDup structure -> (forall x, In x atoms -> x <= a) -> (forall x, In x structure -> x <= b) ->
+  let s' := remap_ids (zip_count (zinter structure atoms) (Z.max a b + 1)) structure in
+  length s' = length structure /\ NoDup s' /\ (forall x, In x s' -> ~ In x atoms) /\
+  (forall i d, ~ In (nth i structure d) atoms -> nth i s' d = nth i structure d).
+Proof.
+  intros Hnd Ha Hb. set (mp := zip_count (zinter structure atoms) (Z.max a b + 1)).
+  set (f := fun n => match zget mp n with Some m => m | None => n end).
+  assert (Hsome : forall n m, zget mp n = Some m -> In n structure /\ In n atoms /\ Z.max a b + 1 <= m /\
+                                                    forall n', zget mp n' = Some m -> n' = n).
+  { intros n m Hg. destruct (zip_count_get _ _ _ _ Hg) as (Hin & Hs & Hu). apply zinter_In in Hin. tauto. }
+  assert (Hnone : forall n, In n structure -> zget mp n = None -> ~ In n atoms).
+  { intros n Hn Hg Hat. apply zget_None_key in Hg. apply Hg. unfold mp. rewrite zip_count_keys. apply zinter_In. tauto. }
+  cbn zeta. unfold remap_ids. fold mp. fold f. split; [apply map_length|]. split; [|split].
+  - apply NoDup_map_inj_on; [|exact Hnd]. intros x y Hx Hy. unfold f.
+    destruct (zget mp x) as [mx|] eqn:Ex, (zget mp y) as [my|] eqn:Ey; intros E; subst.
+    + symmetry. apply (Hsome _ _ Ex). exact Ey.
+    + destruct (Hsome _ _ Ex) as (_ & _ & Hs & _). specialize (Hb _ Hy). lia.
+    + destruct (Hsome _ _ Ey) as (_ & _ & Hs & _). specialize (Hb _ Hx). lia.
+    + reflexivity.
+  - intros x Hx. apply in_map_iff in Hx. destruct Hx as (n & <- & Hn). unfold f.
+    destruct (zget mp n) as [m|] eqn:E.
+    + intros Hat. destruct (Hsome _ _ E) as (_ & _ & Hs & _). specialize (Ha _ Hat). lia.
+    + apply Hnone; assumption.
+  - intros i d Hi. destruct (Nat.lt_ge_cases i (length structure)) as [Hlt|Hge].
+    + rewrite (nth_indep _ d (f d)) by (rewrite map_length; exact Hlt). rewrite map_nth. unfold f.
+      destruct (zget mp (nth i structure d)) as [m|] eqn:E; [|reflexivity].
+      exfalso. apply Hi. apply (Hsome _ _ E).
+    + rewrite !nth_overflow; [reflexivity|exact Hge|rewrite map_length; exact Hge].
+Qed.
+
+(* the state of the loop: checked_atoms is the union of the structures already checked, which are pairwise disjoint *)
+Definition overlap_inv (st : list (list Z) * list Z) : Prop :=
+  (forall x, In x (snd st) <-> exists c, In c (fst st) /\ In x c) /\ all_disjoint (fst st).
+
+Definition overlap_rel (atoms : list Z) (s o : list Z) : Prop :=
+  length o = length s /\ NoDup o /\ (forall x, In x o -> ~ In x atoms) /\
+  (forall i d, ~ In (nth i s d) atoms -> nth i o d = nth i s d).
+
+Lemma overlap_step_ok st s st' : overlap_step st s = Ok st' -> overlap_inv st -> NoDup s ->
+  overlap_inv st' /\ exists o, fst st' = fst st ++ [o] /\ overlap_rel (snd st) s o.
+Proof.
+  destruct st as [checked atoms]. unfold overlap_step. intros H (I1 & I2) Hnd. cbn [fst snd] in *.
+  assert (Hfin : forall o, overlap_rel atoms s o ->
+                           overlap_inv (checked ++ [o], zunion o atoms) /\
+                           exists o', fst (checked ++ [o], zunion o atoms) = checked ++ [o'] /\ overlap_rel atoms s o').
+  { intros o Ho. split; [|exists o; split; [reflexivity|exact Ho]]. split; cbn [fst snd].
+    - intros x. rewrite zunion_In, I1. split.
+      + intros [Hx|(c & Hc & Hx)]; [exists o; split; [apply in_or_app; right; left; reflexivity|exact Hx]|].
+        exists c. split; [apply in_or_app; left; exact Hc|exact Hx].
+      + intros (c & Hc & Hx). apply in_app_or in Hc. destruct Hc as [Hc|[<-|[]]]; [right; exists c; split; assumption|left; exact Hx].
+    - apply all_disjoint_snoc. split; [exact I2|]. intros c Hc x Hx Hxo.
+      destruct Ho as (_ & _ & Ho & _). apply (Ho x Hxo). apply I1. exists c. split; assumption. }
+  destruct (zinter s atoms) as [|i0 irest] eqn:Ei.
+  - inversion H; subst st'. apply Hfin. split; [reflexivity|]. split; [exact Hnd|]. split; [|reflexivity].
+    intros x Hx Hat. assert (Hin : In x (zinter s atoms)) by (apply zinter_In; split; assumption). rewrite Ei in Hin. destruct Hin.
+  - destruct (zmax_list atoms) as [a|] eqn:Ea; [|discriminate]. destruct (zmax_list s) as [b|] eqn:Eb; [|discriminate].
+    inversion H; subst st'.
+    change ((i0, Z.max a b + 1) :: zip_count irest (Z.max a b + 1 + 1)) with (zip_count (i0 :: irest) (Z.max a b + 1)).
+    rewrite <- Ei. apply Hfin.
+    apply (remap_collisions s atoms a b Hnd (proj2 (zmax_list_spec _ _ Ea)) (proj2 (zmax_list_spec _ _ Eb))).
+Qed.
+
+Lemma overlap_fold_ok : forall l st st', fold_res overlap_step l st = Ok st' -> overlap_inv st -> Forall (@NoDup Z) l ->
+  overlap_inv st' /\ exists outs, fst st' = fst st ++ outs /\ Forall2 (fun s o => length o = length s /\ NoDup o) l outs.
+Proof.
+  induction l as [|s l IH]; intros st st' H Hinv Hnd; cbn [fold_res] in H.
+  - inversion H; subst. split; [exact Hinv|]. exists []. split; [rewrite app_nil_r; reflexivity|constructor].
+  - destruct (overlap_step st s) as [st1|] eqn:E1; [|discriminate]. inversion Hnd as [|? ? Hs Hl]; subst.
+    destruct (overlap_step_ok _ _ _ E1 Hinv Hs) as (Hinv1 & o & Eo & Ho).
+    destruct (IH st1 st' H Hinv1 Hl) as (Hinv' & outs & Eouts & Hall).
+    split; [exact Hinv'|]. exists (o :: outs). split; [rewrite Eouts, Eo, <- app_assoc; reflexivity|].
+    constructor; [split; apply Ho|exact Hall].
+Qed.
+
+(* the structures handed to the reactor never share an atom number; sizes and uniqueness inside a structure are kept *)
+Theorem overlap_fix_disjoint : forall structures out,
+  fix_mapping_overlap structures = Ok out -> Forall (@NoDup Z) structures ->
+  all_disjoint out /\ Forall2 (fun s o => length o = length s /\ NoDup o) structures out.
+Proof.
+  intros structures out H Hnd. unfold fix_mapping_overlap in H.
+  assert (Hgen : match fold_res overlap_step structures ([], []) with Ok (checked, _) => Ok checked | Err e => Err e end = Ok out ->
+                 all_disjoint out /\ Forall2 (fun s o => length o = length s /\ NoDup o) structures out).
+  { destruct (fold_res overlap_step structures ([], [])) as [[checked atoms]|] eqn:E; [|discriminate].
+    intros Ho. inversion Ho; subst out.
+    destruct (overlap_fold_ok _ _ _ E) as ((_ & Hd) & outs & Eouts & Hall); [split; cbn; [intros x; split; [intros []|intros (c & [] & _)]|exact I]|exact Hnd|].
+    cbn [fst] in *. subst checked. split; assumption. }
+  destruct structures as [|s [|s2 r]]; [apply Hgen; exact H| |apply Hgen; exact H].
+  inversion H; subst out. split; [cbn; split; [intros ? []|exact I]|].
+  constructor; [|constructor]. inversion Hnd; subst. split; [reflexivity|assumption].
+Qed.
+
+(* structures that do not collide are returned unchanged *)
+Theorem overlap_fix_identity : forall structures,
+  all_disjoint structures -> fix_mapping_overlap structures = Ok structures.
+Proof.
+  intros structures Hd.
+  assert (Hgen : forall l checked atoms,
+            (forall x, In x atoms <-> exists c, In c checked /\ In x c) ->
+            (forall c s, In c checked -> In s l -> forall x, In x c -> ~ In x s) -> all_disjoint l ->
+            exists atoms', fold_res overlap_step l (checked, atoms) = Ok (checked ++ l, atoms')).
+  { induction l as [|s l IH]; intros checked atoms Hat Hcl Hdl; cbn [fold_res].
+    - exists atoms. rewrite app_nil_r. reflexivity.
+    - unfold overlap_step at 1.
+      assert (Ei : zinter s atoms = []).
+      { destruct (zinter s atoms) as [|x r] eqn:E; [reflexivity|]. exfalso.
+        assert (Hx : In x (zinter s atoms)) by (rewrite E; left; reflexivity).
+        apply zinter_In in Hx. destruct Hx as [Hxs Hxa]. apply Hat in Hxa. destruct Hxa as (c & Hc & Hxc).
+        apply (Hcl c s Hc (or_introl eq_refl) x Hxc Hxs). }
+      rewrite Ei. destruct Hdl as [Hd1 Hd2].
+      destruct (IH (checked ++ [s]) (zunion s atoms)) as [atoms' E'].
+      + intros x. rewrite zunion_In, Hat. split.
+        * intros [Hx|(c & Hc & Hx)]; [exists s; split; [apply in_or_app; right; left; reflexivity|exact Hx]|].
+          exists c. split; [apply in_or_app; left; exact Hc|exact Hx].
+        * intros (c & Hc & Hx). apply in_app_or in Hc. destruct Hc as [Hc|[<-|[]]]; [right; exists c; split; assumption|left; exact Hx].
+      + intros c s' Hc Hs' x Hxc. apply in_app_or in Hc. destruct Hc as [Hc|[<-|[]]].
+        * apply (Hcl c s' Hc (or_intror Hs') x Hxc).
+        * apply (Hd1 s' Hs' x Hxc).
+      + exact Hd2.
+      + exists atoms'. rewrite E', <- app_assoc. reflexivity. }
+  unfold fix_mapping_overlap. destruct structures as [|s [|s2 r]]; [reflexivity|reflexivity|].
+  destruct (Hgen (s :: s2 :: r) [] []) as [atoms' E]; [intros x; split; [intros []|intros (c & [] & _)]|intros c s' []|exact Hd|].
+  rewrite E. reflexivity.
+Qed.
